@@ -13,15 +13,25 @@ RULE = ("one case = one operation (sort_tilts_by_angle / remove_tilts / split_st
         "sequence (so that every transposition, swap or dropped image is visible); the real function is run in all 16 configurations "
         "{array x,y,n | array n,y,x | MRC file (input_order ignored, both values)} x output_order {xyz,zyx} x output file {on,off}; every "
         "written file is re-read by the harness's own MRC parser; one configuration per case (drawn at random) is also executed by the Lean "
-        "model. Angles are distinct (no ties), index subsets arbitrary non-empty (1-/0-based, any order), ~6% of the cases carry an argument "
-        "the code must refuse. non-trivial = no rejection, height != width, n >= 3 and the result differs from the input; distinct = distinct case content")
+        "model. In ~1/3 of the cases every keyword whose value equals the signature default (input_order, output_order, output_file, "
+        "numbered_from_1, new_width, new_height) is OMITTED so that the library's defaults are exercised. The second argument is built once "
+        "per case and the same object is passed to all 16 calls and compared before/after each call. Angles are distinct (no ties) and come as "
+        "list / ndarray / .tlt / .rawtlt / .mdoc file; ~10% of the sort cases have fewer or more angles than images (outside the statement: "
+        "judged against the model only). Index subsets are arbitrary non-empty (1-/0-based, any order, large stacks reduced to 2-4 tilts) and come "
+        "as list / int64 / int32 ndarray / .txt / .csv file; axes as str / list / tuple; crop sizes as int / str / float / numpy int. ~6% of the "
+        "cases carry an argument the code must refuse. ~12% of the cases are SEQUENCES of 2-4 calls in one process: on the same file path "
+        "(each call reads and overwrites it, or the harness rewrites it with another stack of the same shape between two calls) or with the "
+        "same caller-owned ndarray / list / file as second argument for different inputs; every call is judged like a first call against "
+        "what the file held / the case says. non-trivial = no rejection, height != width, n >= 3 and the result differs from the input "
+        "(sequences: >= 2 calls returned and one changed its input); distinct = distinct case content")
 ASSUMPTIONS = [
     "numpy basic/fancy indexing, np.delete, np.stack, transpose(2,1,0) and astype to the same dtype copy voxels bit for bit",
     "skimage.transform.downscale_local_mean(data,(1,b,b)) = mean over b x b blocks after zero padding to a multiple of b (probed every run)",
     "block sums of the generated binning inputs (|numerator| <= 2000, denominators 1,2,4, b <= 5) are exact in float32/float64; the quotient is "
-    "correctly rounded; astype(int16) truncates toward zero (the judge accepts either integer neighbour of the block mean for int16)",
+    "correctly rounded; astype(int16) truncates toward zero (probed every run; the model applies the same truncation and the int16 results are compared exactly)",
     "mrcfile writes exactly the header dimensions/mode and C-order bytes it is given and returns a 3-D array for nz >= 2 (output files are re-read "
     "by the harness's own parser; the parser is cross-checked against mrcfile by a probe on every run)",
+    "angle files: repr() of a multiple of 1/8 below 100 is read back exactly by pandas (float32, .tlt/.rawtlt) and by cryocat.mdoc (float64)",
 ]
 TRUSTED = ["harness MRC parser (props/c15.py parse_mrc)", "mrcfile (only to create the *input* files; checked by the parser probe)"]
 REL = "cryocat/tiltstack.py"
@@ -31,23 +41,101 @@ INPUTS = ["arr_xyz", "arr_zyx", "file_xyz", "file_zyx"]   # file_<o>: MRC path, 
 
 
 # ------------------------------------------------------------------ translator (pure ast)
-def _assign(src, fn, target):
-    """normalised right-hand side of the unique assignment `target = ...` in fn"""
-    hits = [n for n in ast.walk(fn) if isinstance(n, ast.Assign) and len(n.targets) == 1 and core.norm_expr(n.targets[0]) == target]
-    if len(hits) != 1:
-        raise core.AnchorMissing(f"{fn.name}: expected exactly one assignment to {target}, found {len(hits)}")
-    return core.norm_expr(hits[0].value)
+# Every extractor works on an ALPHA-NORMALISED copy of the function: local variables (every name the function binds that is
+# not a parameter) are renamed v0, v1, ... in the order of their first binding, so a harmless rename of a local leaves all
+# anchors unchanged, while parameters (the keyword API) and attribute names keep their names. Model-feeding values
+# (flip table, index shift, parity rule, transposes, defaults) are extracted structurally; everything else is anchored as a
+# normalised dump of the whole function body (statement kinds + expressions; docstrings, print calls and exception
+# messages dropped), so that an added, removed or reordered statement is seen.
+DOC = dict(  # documented values: used as fall-back when an anchor is missing (the anchor itself is then recorded as failed)
+    flip=[["x", 1], ["y", 2], ["z", 0]], shift=["numbered_from_1", 1], even=0, tin=[[2, 1, 0], "input_order == 'xyz'"],
+    tout=[[2, 1, 0], "self.current_order != self.output_order"], cur="zyx", unpack=["n_tilts", "height", "width"],
+    base1=True, in_order="xyz", out_order="xyz")
+SIX = ["crop", "sort_tilts_by_angle", "remove_tilts", "bin", "split_stack_even_odd", "flip_along_axes"]
+
+
+def _params(fn):
+    a = fn.args
+    return [x.arg for x in a.posonlyargs + a.args + a.kwonlyargs] + ([a.vararg.arg] if a.vararg else []) + ([a.kwarg.arg] if a.kwarg else [])
+
+
+class _Binders(ast.NodeVisitor):
+    def __init__(self, skip):
+        self.skip, self.order = set(skip), []
+
+    def visit_Name(self, n):
+        if isinstance(n.ctx, (ast.Store, ast.Del)) and n.id not in self.skip and n.id not in self.order:
+            self.order.append(n.id)
+
+    def visit_FunctionDef(self, n):          # nested defs bind their own name only
+        if n.name not in self.skip and n.name not in self.order:
+            self.order.append(n.name)
+
+
+class _Rename(ast.NodeTransformer):
+    def __init__(self, m):
+        self.m = m
+
+    def visit_Name(self, n):
+        return ast.copy_location(ast.Name(id=self.m.get(n.id, n.id), ctx=n.ctx), n)
+
+
+def _alpha(fn):
+    import copy
+    fn = copy.deepcopy(fn)
+    b = _Binders(_params(fn))
+    for st in fn.body:
+        b.visit(st)
+    ren = _Rename({name: f"v{k}" for k, name in enumerate(b.order)})
+    fn.body = [ren.visit(st) for st in fn.body]
+    return fn
+
+
+def _u(node):
+    return ast.unparse(node)
+
+
+def _skeleton(stmts, ind=""):
+    out = []
+    for k, st in enumerate(stmts):
+        if isinstance(st, ast.Expr) and isinstance(st.value, ast.Constant) and isinstance(st.value.value, str):
+            continue                                                   # docstring / bare string
+        if isinstance(st, ast.Expr) and isinstance(st.value, ast.Call) and _u(st.value.func) == "print":
+            continue
+        if isinstance(st, ast.If):
+            out.append(f"{ind}if {_u(st.test)}:")
+            out += _skeleton(st.body, ind + "  ")
+            if st.orelse:
+                out.append(f"{ind}else:")
+                out += _skeleton(st.orelse, ind + "  ")
+        elif isinstance(st, (ast.For, ast.While)):
+            out.append(f"{ind}for {_u(st.target)} in {_u(st.iter)}:" if isinstance(st, ast.For) else f"{ind}while {_u(st.test)}:")
+            out += _skeleton(st.body, ind + "  ")
+            if st.orelse:
+                out.append(f"{ind}else:")
+                out += _skeleton(st.orelse, ind + "  ")
+        elif isinstance(st, ast.Raise):
+            e = st.exc.func if isinstance(st.exc, ast.Call) else st.exc
+            out.append(f"{ind}raise {_u(e) if e is not None else ''}")
+        elif isinstance(st, (ast.With, ast.Try)):
+            out.append(f"{ind}{type(st).__name__.lower()}:")
+            for fld in ("body", "handlers", "orelse", "finalbody"):
+                for h in getattr(st, fld, []) or []:
+                    out += _skeleton(h.body if isinstance(h, ast.ExceptHandler) else [h], ind + "  ")
+        else:
+            out.append(ind + _u(st))
+    return out
 
 
 def _transpose_axes(call):
     if not (isinstance(call, ast.Call) and isinstance(call.func, ast.Attribute) and call.func.attr == "transpose"):
-        raise core.AnchorMissing("not a .transpose(...) call: " + ast.unparse(call)[:60])
+        raise core.AnchorMissing("not a .transpose(...) call: " + _u(call)[:60])
     return [int(ast.literal_eval(a)) for a in call.args]
 
 
 def _kw_false(fn, callee):
     for n in ast.walk(fn):
-        if isinstance(n, ast.Call) and core.norm_expr(n.func) == callee:
+        if isinstance(n, ast.Call) and _u(n.func) == callee:
             for k in n.keywords:
                 if k.arg == "transpose":
                     return bool(ast.literal_eval(k.value))
@@ -55,144 +143,217 @@ def _kw_false(fn, callee):
     raise core.AnchorMissing(f"{fn.name}: no call of {callee}")
 
 
+def _ts_var(fn):
+    """the local that holds `TiltStack(...)` in an alpha-normalised function"""
+    for st in fn.body:
+        if isinstance(st, ast.Assign) and isinstance(st.value, ast.Call) and _u(st.value.func) == "TiltStack" and isinstance(st.targets[0], ast.Name):
+            return st.targets[0].id
+    raise core.AnchorMissing(f"{fn.name}: no `ts = TiltStack(...)` statement")
+
+
+def _defaults(fn):
+    a = fn.args
+    pos = a.posonlyargs + a.args
+    out = {p.arg: _u(d) for p, d in zip(pos[len(pos) - len(a.defaults):], a.defaults)}
+    out.update({p.arg: _u(d) for p, d in zip(a.kwonlyargs, a.kw_defaults) if d is not None})
+    return out
+
+
 def translate(src):
     A = src.anchor
+    F = lambda name, rel=REL: _alpha(src.find(rel, name))
 
     def flip_table():
-        fn = src.find(REL, "flip_along_axes")
+        fn = F("flip_along_axes")
+        ts = _ts_var(fn)
         loop = [n for n in ast.walk(fn) if isinstance(n, ast.For)]
-        if len(loop) != 1:
+        if len(loop) != 1 or not isinstance(loop[0].target, ast.Name):
             raise core.AnchorMissing("flip_along_axes: for-loop over axes")
+        lv = loop[0].target.id
+        if len(loop[0].body) != 1:
+            raise core.AnchorMissing("flip_along_axes: loop body is not a single if/elif chain")
         node, table = loop[0].body[0], []
         while isinstance(node, ast.If):
             t = node.test
-            if not (isinstance(t, ast.Compare) and len(t.ops) == 1 and isinstance(t.ops[0], ast.Eq) and isinstance(t.comparators[0], ast.Constant)):
-                raise core.AnchorMissing("flip_along_axes: branch test " + ast.unparse(t))
+            if not (isinstance(t, ast.Compare) and len(t.ops) == 1 and isinstance(t.ops[0], ast.Eq) and isinstance(t.comparators[0], ast.Constant)
+                    and isinstance(t.left, ast.Name) and t.left.id == lv):
+                raise core.AnchorMissing("flip_along_axes: branch test " + _u(t))
             st = node.body[0]
-            if not (len(node.body) == 1 and isinstance(st, ast.Assign) and core.norm_expr(st.targets[0]) == "ts.data"
-                    and isinstance(st.value, ast.Subscript) and core.norm_expr(st.value.value) == "ts.data" and isinstance(st.value.slice, ast.Tuple)):
-                raise core.AnchorMissing("flip_along_axes: branch body " + ast.unparse(st)[:60])
+            if not (len(node.body) == 1 and isinstance(st, ast.Assign) and _u(st.targets[0]) == f"{ts}.data"
+                    and isinstance(st.value, ast.Subscript) and _u(st.value.value) == f"{ts}.data" and isinstance(st.value.slice, ast.Tuple)):
+                raise core.AnchorMissing("flip_along_axes: branch body " + _u(st)[:60])
             rev = []
             for k, s in enumerate(st.value.slice.elts):
                 if not (isinstance(s, ast.Slice) and s.lower is None and s.upper is None):
-                    raise core.AnchorMissing("flip_along_axes: slice " + ast.unparse(st))
+                    raise core.AnchorMissing("flip_along_axes: slice " + _u(st))
                 if s.step is not None:
-                    if core.norm_expr(s.step) != "-1":
-                        raise core.AnchorMissing("flip_along_axes: step " + ast.unparse(st))
+                    if _u(s.step) != "-1":
+                        raise core.AnchorMissing("flip_along_axes: step " + _u(st))
                     rev.append(k)
             if len(rev) != 1 or len(st.value.slice.elts) != 3:
-                raise core.AnchorMissing("flip_along_axes: exactly one reversed axis expected in " + ast.unparse(st))
+                raise core.AnchorMissing("flip_along_axes: exactly one reversed axis expected in " + _u(st))
             table.append([str(t.comparators[0].value), rev[0]])
-            node = node.orelse[0] if len(node.orelse) == 1 else None
+            if len(node.orelse) != 1:
+                raise core.AnchorMissing("flip_along_axes: chain must end in an else branch")
+            node = node.orelse[0]
+        if not isinstance(node, ast.Raise):
+            raise core.AnchorMissing("flip_along_axes: the final else branch must raise")
         return table
 
     def index_shift():
-        fn = src.find(REL_IO, "indices_load")
-        for n in fn.body:
-            if isinstance(n, ast.If) and isinstance(n.test, ast.Name):
-                st = n.body[0]
-                if isinstance(st, ast.Assign) and isinstance(st.value, ast.BinOp) and isinstance(st.value.right, ast.Constant) \
-                        and core.norm_expr(st.value.left) == core.norm_expr(st.targets[0]) == "indices":
-                    c = int(st.value.right.value)
-                    if isinstance(st.value.op, ast.Sub):
-                        return [n.test.id, c]
-                    if isinstance(st.value.op, ast.Add):
-                        return [n.test.id, -c]
-        raise core.AnchorMissing("indices_load: `if numbered_from_1: indices = indices - 1`")
+        fn = F("indices_load", REL_IO)
+        last = [n for n in fn.body if isinstance(n, ast.If) and isinstance(n.test, ast.Name)]
+        ret = fn.body[-1]
+        for n in last:
+            st = n.body[0]
+            if len(n.body) == 1 and not n.orelse and isinstance(st, ast.Assign) and isinstance(st.value, ast.BinOp) and isinstance(st.value.right, ast.Constant) \
+                    and isinstance(st.targets[0], ast.Name) and _u(st.value.left) == st.targets[0].id \
+                    and isinstance(ret, ast.Return) and _u(ret.value) == st.targets[0].id and n.test.id in _params(fn):
+                c = int(st.value.right.value)
+                if isinstance(st.value.op, ast.Sub):
+                    return [n.test.id, c]
+                if isinstance(st.value.op, ast.Add):
+                    return [n.test.id, -c]
+        raise core.AnchorMissing("indices_load: `if numbered_from_1: indices = indices - 1` (a fresh array, not an in-place update) followed by `return indices`")
 
     def even_rule():
-        fn = src.find(REL, "split_stack_even_odd")
+        fn = F("split_stack_even_odd")
+        ts = _ts_var(fn)
+        writes, ret = {}, None
+        for n in ast.walk(fn):
+            if isinstance(n, ast.Call) and _u(n.func) == f"{ts}.write_out" and n.args and isinstance(n.args[0], ast.BinOp) \
+                    and isinstance(n.args[0].right, ast.Constant) and len(n.keywords) == 1 and n.keywords[0].arg == "new_data":
+                writes[str(n.args[0].right.value)] = _u(n.keywords[0].value)
+            if isinstance(n, ast.Return) and n.value is not None:
+                ret = n.value
+        if sorted(writes) != ["_even.mrc", "_odd.mrc"] or not (isinstance(ret, ast.Tuple) and len(ret.elts) == 2):
+            raise core.AnchorMissing("split_stack_even_odd: two write_out(prefix + '_even.mrc'/'_odd.mrc', new_data=...) calls and a returned pair")
+        ev, od = writes["_even.mrc"], writes["_odd.mrc"]
+        if [_u(e) for e in ret.elts] != [f"{ts}.correct_order({ev})", f"{ts}.correct_order({od})"] or ev == od:
+            raise core.AnchorMissing("split_stack_even_odd: returns (correct_order(even), correct_order(odd)) of the stacks it writes")
         for n in ast.walk(fn):
             if isinstance(n, ast.If) and isinstance(n.test, ast.Compare) and isinstance(n.test.left, ast.BinOp) and isinstance(n.test.left.op, ast.Mod):
                 t = n.test
-                if core.norm_expr(t.left) == "i%2" and isinstance(t.ops[0], ast.Eq) and isinstance(t.comparators[0], ast.Constant):
-                    body = core.norm_expr(n.body[0].value) if isinstance(n.body[0], ast.Expr) else ""
-                    orelse = core.norm_expr(n.orelse[0].value) if n.orelse and isinstance(n.orelse[0], ast.Expr) else ""
-                    if body == "even_stack.append(ts.data[i,:,:])" and orelse == "odd_stack.append(ts.data[i,:,:])":
-                        return [int(t.comparators[0].value), "even_stack"]
-                    if body == "odd_stack.append(ts.data[i,:,:])" and orelse == "even_stack.append(ts.data[i,:,:])":
-                        return [1 - int(t.comparators[0].value), "even_stack"]
-        raise core.AnchorMissing("split_stack_even_odd: `if i % 2 == 0: even_stack.append(ts.data[i,:,:]) else: odd_stack.append(...)`")
+                loop = [f for f in ast.walk(fn) if isinstance(f, ast.For) and n in f.body]
+                if not (loop and isinstance(loop[0].target, ast.Name) and _u(loop[0].iter) == f"range({ts}.n_tilts)"):
+                    raise core.AnchorMissing("split_stack_even_odd: parity test outside `for i in range(ts.n_tilts)`")
+                i = loop[0].target.id
+                if _u(t.left) == f"{i} % 2" and isinstance(t.ops[0], ast.Eq) and isinstance(t.comparators[0], ast.Constant) and len(n.body) == 1 and len(n.orelse) == 1:
+                    body, orelse = _u(n.body[0]), _u(n.orelse[0])
+                    if body == f"{ev}.append({ts}.data[{i}, :, :])" and orelse == f"{od}.append({ts}.data[{i}, :, :])":
+                        return int(t.comparators[0].value)
+                    if body == f"{od}.append({ts}.data[{i}, :, :])" and orelse == f"{ev}.append({ts}.data[{i}, :, :])":
+                        return 1 - int(t.comparators[0].value)
+        raise core.AnchorMissing("split_stack_even_odd: `if i % 2 == 0: even.append(ts.data[i,:,:]) else: odd.append(...)`")
 
     def init_transpose():
-        fn = src.find(REL, "TiltStack.__init__")
+        fn = F("TiltStack.__init__")
         hits = []
         for n in ast.walk(fn):
-            if isinstance(n, ast.If) and len(n.body) == 1 and isinstance(n.body[0], ast.Assign) and core.norm_expr(n.body[0].targets[0]) == "self.data" \
-                    and isinstance(n.body[0].value, ast.Call) and core.norm_expr(n.body[0].value.func) == "self.data.transpose":
+            if isinstance(n, ast.If) and len(n.body) == 1 and isinstance(n.body[0], ast.Assign) and _u(n.body[0].targets[0]) == "self.data" \
+                    and isinstance(n.body[0].value, ast.Call) and _u(n.body[0].value.func) == "self.data.transpose":
                 hits.append(n)
         if len(hits) != 1:
             raise core.AnchorMissing("TiltStack.__init__: `if input_order == 'xyz': self.data = self.data.transpose(...)`")
-        return [_transpose_axes(hits[0].body[0].value), core.norm_expr(hits[0].test)]
+        return [_transpose_axes(hits[0].body[0].value), _u(hits[0].test)]
 
     def out_transpose():
-        fn = src.find(REL, "TiltStack.correct_order")
+        fn = F("TiltStack.correct_order")
         for n in ast.walk(fn):
             if isinstance(n, ast.If) and isinstance(n.body[0], ast.Return) and isinstance(n.body[0].value, ast.Call) \
-                    and core.norm_expr(n.body[0].value.func) == "return_data.transpose":
-                if not (n.orelse and isinstance(n.orelse[0], ast.Return) and core.norm_expr(n.orelse[0].value) == "return_data"):
-                    raise core.AnchorMissing("TiltStack.correct_order: else branch is not `return return_data`")
-                return [_transpose_axes(n.body[0].value), core.norm_expr(n.test)]
+                    and isinstance(n.body[0].value.func, ast.Attribute) and n.body[0].value.func.attr == "transpose":
+                rd = _u(n.body[0].value.func.value)
+                if not (n.orelse and isinstance(n.orelse[0], ast.Return) and _u(n.orelse[0].value) == rd):
+                    raise core.AnchorMissing("TiltStack.correct_order: else branch does not return the untransposed data")
+                return [_transpose_axes(n.body[0].value), _u(n.test)]
         raise core.AnchorMissing("TiltStack.correct_order: `if self.current_order != self.output_order: return return_data.transpose(...)`")
 
     def shape_unpack():
-        fn = src.find(REL, "TiltStack.__init__")
+        fn = F("TiltStack.__init__")
         for n in ast.walk(fn):
-            if isinstance(n, ast.Assign) and isinstance(n.targets[0], ast.Tuple) and core.norm_expr(n.value) == "self.data.shape":
-                return [core.norm_expr(e).replace("self.", "") for e in n.targets[0].elts]
+            if isinstance(n, ast.Assign) and isinstance(n.targets[0], ast.Tuple) and _u(n.value) == "self.data.shape":
+                return [_u(e).replace("self.", "") for e in n.targets[0].elts]
         raise core.AnchorMissing("TiltStack.__init__: `self.n_tilts, self.height, self.width = self.data.shape`")
 
-    def crop_exprs():
-        fn = src.find(REL, "crop")
-        return [[t, _assign(src, fn, t)] for t in ["(center_w,center_h)", "start_w", "end_w", "start_h", "end_h", "ts.data"]]
+    def current_order():
+        fn = F("TiltStack.__init__")
+        hits = [n for n in ast.walk(fn) if isinstance(n, ast.Assign) and len(n.targets) == 1 and _u(n.targets[0]) == "self.current_order"]
+        if len(hits) != 1:
+            raise core.AnchorMissing("TiltStack.__init__: exactly one assignment to self.current_order")
+        return str(ast.literal_eval(hits[0].value))
 
-    def crop_guards():
-        fn = src.find(REL, "crop")
+    def sig_defaults():
         out = []
-        for n in ast.walk(fn):
-            if isinstance(n, ast.If) and isinstance(n.test, ast.Compare) and isinstance(n.body[0], ast.Raise):
-                out.append(core.norm_expr(n.test))
+        for name, rel in [(f, REL) for f in SIX] + [("TiltStack.__init__", REL), ("indices_load", REL_IO), ("tlt_load", REL_IO)]:
+            fn = src.find(rel, name)
+            out.append([name, ", ".join(_params(fn))])
+            out += [[f"{name}.{p}", d] for p, d in _defaults(fn).items()]
         return out
 
-    def exprs_of(name, targets):
-        fn = src.find(REL, name)
-        return [[t, _assign(src, fn, t)] for t in targets]
+    def common_default(param, fns):
+        def get():
+            vals = set()
+            for f in fns:
+                d = _defaults(src.find(REL, f))
+                if param not in d:
+                    raise core.AnchorMissing(f"{f}: parameter {param} has no default")
+                vals.add(d[param])
+            if len(vals) != 1:
+                raise core.AnchorMissing(f"default of {param} differs between functions: {sorted(vals)}")
+            return ast.literal_eval(vals.pop())
+        return get
 
-    def remove_guard():
-        fn = src.find(REL, "remove_tilts")
-        for n in ast.walk(fn):
-            if isinstance(n, ast.If) and isinstance(n.body[0], ast.Raise):
-                return core.norm_expr(n.test)
-        raise core.AnchorMissing("remove_tilts: bounds check")
+    def wrapper(name):
+        """[constructor statement, every write_out statement, every return] + the order facts of the wrapper"""
+        def get():
+            fn = F(name)
+            ts = _ts_var(fn)
+            flat = []                                     # (position, statement) in source order, nested bodies included
 
-    def split_out():
-        fn = src.find(REL, "split_stack_even_odd")
-        suffixes, ret = [], None
-        for n in ast.walk(fn):
-            if isinstance(n, ast.Call) and core.norm_expr(n.func) == "ts.write_out" and isinstance(n.args[0], ast.BinOp):
-                suffixes.append([str(n.args[0].right.value), core.norm_expr(n.keywords[0].value) if n.keywords else ""])
-            if isinstance(n, ast.Return) and n.value is not None:
-                ret = core.norm_expr(n.value)
-        if ret is None or len(suffixes) != 2:
-            raise core.AnchorMissing("split_stack_even_odd: two write_out calls and a return")
-        return [suffixes, ret]
+            def walk(stmts):
+                for st in stmts:
+                    flat.append(st)
+                    for fld in ("body", "orelse"):
+                        if isinstance(st, (ast.If, ast.For, ast.While)):
+                            walk(getattr(st, fld))
+            walk(fn.body)
+            uses = lambda st: any(isinstance(n, ast.Name) and n.id == ts for n in ast.walk(st))
+            simple = [st for st in flat if not isinstance(st, (ast.If, ast.For, ast.While))]
+            cons = [k for k, st in enumerate(simple) if isinstance(st, ast.Assign) and isinstance(st.value, ast.Call) and _u(st.value.func) == "TiltStack"]
+            wr = [k for k, st in enumerate(simple) if isinstance(st, ast.Expr) and isinstance(st.value, ast.Call) and _u(st.value.func) == f"{ts}.write_out"]
+            rets = [k for k, st in enumerate(simple) if isinstance(st, ast.Return)]
+            sets = [k for k, st in enumerate(simple) if isinstance(st, (ast.Assign, ast.AugAssign)) and any(
+                _u(t).startswith(f"{ts}.") for t in (st.targets if isinstance(st, ast.Assign) else [st.target]))]
+            first_use = min([k for k, st in enumerate(simple) if uses(st)] or [0])
+            if len(cons) != 1 or not wr or len(rets) != 1:
+                raise core.AnchorMissing(f"{name}: expected one TiltStack(...), at least one write_out and one return")
+            order_ok = cons[0] == first_use and all(s < wr[0] for s in sets) and wr[-1] < rets[0] and rets[0] == len(simple) - 1 - sum(isinstance(st, ast.Raise) for st in simple[rets[0] + 1:])
+            return [_u(simple[cons[0]])] + [_u(simple[k]) for k in wr] + [_u(simple[rets[0]])] + ["order:" + ("construct<data-updates<write_out<return" if order_ok else "VIOLATED")]
+        return get
 
-    flip = A("flip_along_axes:axis-table", flip_table) or []
-    shift = A("indices_load:numbered_from_1-shift", index_shift) or ["", 0]
-    even = A("split_stack_even_odd:i%2-rule", even_rule) or [9, ""]
-    tin = A("TiltStack.__init__:input-transpose", init_transpose) or [[], ""]
-    cur = A("TiltStack.__init__:current_order", lambda: ast.literal_eval(_assign_node(src.find(REL, "TiltStack.__init__"), "self.current_order"))) or ""
+    body = lambda name, rel=REL: (lambda: _skeleton(F(name, rel).body))
+
+    flip = A("flip_along_axes:axis-table", flip_table) or DOC["flip"]
+    shift = A("indices_load:numbered_from_1-shift", index_shift) or DOC["shift"]
+    even = A("split_stack_even_odd:i%2-rule", even_rule)
+    even = DOC["even"] if even is None else even
+    tin = A("TiltStack.__init__:input-transpose", init_transpose) or DOC["tin"]
+    cur = A("TiltStack.__init__:current_order", current_order) or DOC["cur"]
     rdt = A("TiltStack.__init__:cryomap.read(transpose=)", lambda: _kw_false(src.find(REL, "TiltStack.__init__"), "cryomap.read"))
     wrt = A("TiltStack.write_out:cryomap.write(transpose=)", lambda: _kw_false(src.find(REL, "TiltStack.write_out"), "cryomap.write"))
-    tout = A("TiltStack.correct_order:output-transpose", out_transpose) or [[], ""]
-    unpack = A("TiltStack.__init__:shape-unpack", shape_unpack) or []
-    cexp = A("crop:window-expressions", crop_exprs) or []
-    cgd = A("crop:guards", crop_guards) or []
-    sexp = A("sort_tilts_by_angle:expressions", lambda: exprs_of("sort_tilts_by_angle", ["tilt_angles", "sorted_indices", "ts.data"])) or []
-    rexp = A("remove_tilts:expressions", lambda: exprs_of("remove_tilts", ["idx_to_remove_final", "max_index", "ts.data"])) or []
-    rgd = A("remove_tilts:bounds-guard", remove_guard) or ""
-    bexp = A("bin:expression", lambda: _assign(src, src.find(REL, "bin"), "ts.data")) or ""
-    spl = A("split_stack_even_odd:outputs", split_out) or [[], ""]
+    tout = A("TiltStack.correct_order:output-transpose", out_transpose) or DOC["tout"]
+    unpack = A("TiltStack.__init__:shape-unpack", shape_unpack) or DOC["unpack"]
+    sig = A("signatures:parameters-and-defaults", sig_defaults) or []
+    d_b1 = A("remove_tilts:default numbered_from_1", common_default("numbered_from_1", ["remove_tilts"]))
+    d_b1 = DOC["base1"] if d_b1 is None else d_b1
+    d_in = A("six functions:default input_order", common_default("input_order", SIX)) or DOC["in_order"]
+    d_out = A("six functions:default output_order", common_default("output_order", SIX)) or DOC["out_order"]
+    wraps = [[f, A(f"{f}:wrapper TiltStack->write_out->correct_order", wrapper(f)) or []] for f in SIX]
+    bodies = [[lean, A(f"{name}:body", body(name, rel)) or []] for lean, name, rel in [
+        ("cropBody", "crop", REL), ("sortBody", "sort_tilts_by_angle", REL), ("removeBody", "remove_tilts", REL), ("binBody", "bin", REL),
+        ("splitBody", "split_stack_even_odd", REL), ("flipBody", "flip_along_axes", REL), ("initBody", "TiltStack.__init__", REL),
+        ("writeOutBody", "TiltStack.write_out", REL), ("correctOrderBody", "TiltStack.correct_order", REL),
+        ("indicesLoadBody", "indices_load", REL_IO), ("tltLoadBody", "tlt_load", REL_IO)]]
 
     def pairs(xs):
         return "[" + ", ".join(f"({core.lean_str(str(a))}, {core.lean_str(str(b))})" for a, b in xs) + "]"
@@ -200,16 +361,21 @@ def translate(src):
     def nats(xs):
         return "[" + ", ".join(str(int(x)) for x in xs) + "]"
 
+    def strs(xs):
+        return "[" + ",\n  ".join(core.lean_str(x) for x in xs) + "]"
+
     rd = "true" if (rdt is None or rdt) else "false"
     wr = "true" if (wrt is None or wrt) else "false"
+    if rdt is None: rd = "false"      # documented: files are read and written untransposed
+    if wrt is None: wr = "false"
     return f"""-- GENERATED by harness/props/c15.py from {REL}, {REL_IO}; do not edit
+-- (local variables alpha-renamed v0, v1, ... in order of first binding; docstrings, prints and exception messages dropped)
 namespace CryoCat.Gen.C15
 def anchorsOk : Bool := {"true" if src.ok else "false"}
 def flipTable : List (String × Nat) := [{", ".join(f"({core.lean_str(a)}, {int(k)})" for a, k in flip)}]
 def indexShift : Int := {int(shift[1])}
 def indexShiftGuard : String := {core.lean_str(str(shift[0]))}
-def evenRemainder : Nat := {int(even[0])}
-def evenBranch : String := {core.lean_str(str(even[1]))}
+def evenRemainder : Nat := {int(even)}
 def inTransposeAxes : List Nat := {nats(tin[0])}
 def outTransposeAxes : List Nat := {nats(tout[0])}
 def inTransposeWhen : String := {core.lean_str(tin[1])}
@@ -218,23 +384,12 @@ def outTransposeWhen : String := {core.lean_str(tout[1])}
 def readTranspose : Bool := {rd}
 def writeTranspose : Bool := {wr}
 def shapeUnpack : List String := {core.lean_str_list(unpack)}
-def cropExprs : List (String × String) := {pairs(cexp)}
-def cropGuards : List String := {core.lean_str_list(cgd)}
-def sortExprs : List (String × String) := {pairs(sexp)}
-def removeExprs : List (String × String) := {pairs(rexp)}
-def removeGuard : String := {core.lean_str(rgd)}
-def binExpr : String := {core.lean_str(bexp)}
-def splitWrites : List (String × String) := {pairs(spl[0])}
-def splitReturn : String := {core.lean_str(spl[1])}
-end CryoCat.Gen.C15
-"""
-
-
-def _assign_node(fn, target):
-    hits = [n for n in ast.walk(fn) if isinstance(n, ast.Assign) and len(n.targets) == 1 and core.norm_expr(n.targets[0]) == target]
-    if len(hits) != 1:
-        raise core.AnchorMissing(f"{fn.name}: expected exactly one assignment to {target}, found {len(hits)}")
-    return hits[0].value
+def defaultNumberedFrom1 : Bool := {"true" if d_b1 else "false"}
+def defaultInputOrder : String := {core.lean_str(str(d_in))}
+def defaultOutputOrder : String := {core.lean_str(str(d_out))}
+def signatures : List (String × String) := {pairs(sig)}
+def wrappers : List (String × List String) := [{", ".join("(" + core.lean_str(f) + ", " + core.lean_str_list(w) + ")" for f, w in wraps)}]
+""" + "".join(f"def {lean} : List String :=\n  {strs(b)}\n" for lean, b in bodies) + "end CryoCat.Gen.C15\n"
 
 
 # ------------------------------------------------------------------ independent MRC parser
@@ -264,6 +419,10 @@ def parse_mrc(path):
 
 
 # ------------------------------------------------------------------ case content
+DEFAULTS = dict(input_order="xyz", output_order="xyz", output_file=None, output_file_prefix=None, numbered_from_1=True,
+                new_width=None, new_height=None)      # the DOCUMENTED signature defaults (G1): a keyword listed in case["omit"] is left out when its value equals this
+
+
 def values(case):
     """voxel codes of the input stack, flat in n,y,x (C) order: int16 values, or float32 bit patterns"""
     n, h, w = case["n"], case["h"], case["w"]
@@ -287,48 +446,74 @@ def numerators(case):
     return (k * (case["va"] | 1) + case["vc"]) % 4001 - 2000
 
 
-def stack_of(case):
-    codes = values(case).reshape(case["n"], case["h"], case["w"])
-    if case["dtype"] == "i16":
+def array_of(codes, dtype):
+    if dtype == "i16":
         return codes.astype(np.int16)
     return codes.astype(np.uint32).view(np.float32)
 
 
+def stack_of(case):
+    return array_of(values(case).reshape(case["n"], case["h"], case["w"]), case["dtype"])
+
+
 def codes_of(arr, dtype):
-    """canonical integer codes of an array the implementation returned"""
+    """canonical integer codes of an array the implementation returned. NO coercion of the dtype (G3): an array of another
+    dtype than the stack's gets codes that cannot be mistaken for the expected ones unless every value is exactly
+    representable (the dtype itself is recorded separately and judged)."""
     arr = np.ascontiguousarray(arr)
     if dtype == "i16":
         if arr.dtype.kind in "iu":
             return arr.astype(np.int64)
+        if arr.dtype.kind != "f":
+            return np.full(arr.shape, 1 << 41, dtype=np.int64)
         return np.where(np.isfinite(arr) & (arr == np.round(arr)), arr, 1 << 40).astype(np.int64)
-    return arr.astype(np.float32).view(np.uint32).astype(np.int64)
+    if arr.dtype == np.float32:
+        return arr.view(np.uint32).astype(np.int64)
+    if arr.dtype.kind == "f":      # float64/float16 result for a float32 stack: exact values keep their float32 code, others are marked
+        a32 = arr.astype(np.float32)
+        exact = (a32.astype(arr.dtype) == arr) | (np.isnan(arr))
+        return np.where(exact, a32.view(np.uint32).astype(np.int64), 1 << 40)
+    if arr.dtype.kind in "iu":
+        return np.ascontiguousarray(arr.astype(np.float32)).view(np.uint32).astype(np.int64)
+    return np.full(arr.shape, 1 << 41, dtype=np.int64)
+
+
+def _type_tag(r):
+    return f"{type(r).__module__.split('.')[0]}.{type(r).__name__}:{getattr(r, 'dtype', None)}"
 
 
 # ------------------------------------------------------------------ generators
-def _new_case(rng, op, tier):
-    big = rng.random() < (0.25 if tier != "search" else 0.05)
-    n = rng.randint(2, 25 if big else 8)
-    hi = 40 if big else (16 if tier != "search" else 9)
-    h = rng.randint(4, hi)
-    w = rng.randint(4, hi)
-    if h == w and rng.random() < 0.9:
-        w = w + 1 if w < 40 else w - 1
-    case = dict(op=op, n=n, h=h, w=w, dtype=rng.choice(["f32", "i16"]), va=rng.randrange(1, 1 << 16), vc=rng.randrange(0, 1 << 16),
-                cfg=[rng.choice(INPUTS), rng.choice(["xyz", "zyx"]), rng.random() < 0.5], view=rng.random() < 0.5, as_array=rng.random() < 0.5)
-    bad = rng.random() < 0.08
+def _params_for(rng, op, case, tier, bad):
+    """operation-specific parameters for a stack of case['n'] x case['h'] x case['w']"""
+    n, h, w = case["n"], case["h"], case["w"]
+    out = {}
     if op == "sort":
         grid = rng.choice([1, 2, 4, 8])
-        pool = rng.sample(range(-70 * grid, 70 * grid + 1), n)       # distinct: no ties
-        case["angles"] = [f2b(p / grid) for p in pool]
+        m = n
+        r = rng.random()
+        if r < 0.06:
+            m = rng.randint(1, n - 1)                                  # fewer angles than images (outside the statement)
+        elif r < 0.10:
+            m = n + rng.randint(1, 3)                                  # more angles than images
+        pool = rng.sample(range(-70 * grid, 70 * grid + 1), m)         # distinct: no ties
+        out["angles"] = [f2b(p / grid) for p in pool]
         if rng.random() < 0.1:
-            case["angles"] = sorted(case["angles"], key=b2f, reverse=rng.random() < 0.5)
+            out["angles"] = sorted(out["angles"], key=b2f, reverse=rng.random() < 0.5)
+        out["ang_src"] = rng.choice(["list", "array", "list", "array", "tlt", "rawtlt", "mdoc"])
     elif op == "remove":
         base1 = rng.random() < 0.5
         b = 1 if base1 else 0
-        k = n if rng.random() < 0.05 else rng.randint(1, max(1, n - 1))
+        r = rng.random()
+        if n > 8 and r < 0.35:
+            k = n - rng.randint(2, 4)                                  # large stacks reduced to 2-4 remaining tilts
+        elif r < 0.05:
+            k = n
+        else:
+            k = rng.randint(1, max(1, n - 1))
         idxs = [i + b for i in rng.sample(range(n), k)]
         if rng.random() < 0.05:
             idxs.append(rng.choice(idxs))
+        src = rng.choice(["list", "array", "list", "array", "array32", "txt", "csv"])
         if bad:
             r = rng.random()
             if r < 0.3:
@@ -337,16 +522,23 @@ def _new_case(rng, op, tier):
                 idxs.insert(rng.randrange(len(idxs) + 1), n + b)      # one past the last image
             else:
                 idxs.insert(rng.randrange(len(idxs) + 1), b - 1)      # one before the first image
-        case.update(idxs=idxs, base1=base1)
+            if src == "csv" or (src == "txt" and not idxs):
+                src = "list"
+        if src == "txt" and len(idxs) == 1 and rng.random() < 0.85:   # the single-entry text file is known finding C15-K1: keep it rare
+            src = "array"
+        out.update(idxs=idxs, base1=base1, idx_src=src)
+        if src == "csv":
+            out["csv_removed_col"] = rng.random() < 0.3
     elif op == "flip":
         r = rng.random()
-        if r < 0.45:
-            axes = rng.choice(["x", "y", "z"])
+        if r < 0.4:
+            axes, kind = [rng.choice(["x", "y", "z"])], "str"
         else:
-            axes = [rng.choice(["x", "y", "z"]) for _ in range(rng.randint(1, 3))]
+            axes, kind = [rng.choice(["x", "y", "z"]) for _ in range(rng.randint(1, 3))], ("tuple" if r > 0.93 else "list")
         if bad:
-            axes = (axes if isinstance(axes, list) else [axes]) + [rng.choice(["w", "X", "xy", ""])]
-        case["axes"] = axes
+            axes = axes + [rng.choice(["w", "X", "xy", ""])]
+            kind = "list" if len(axes) > 1 else kind
+        out.update(axes=axes if kind != "str" else axes[0], axes_kind=kind)
     elif op == "crop":
         nw = None if rng.random() < 0.15 else rng.randint(1, w)
         nh = None if rng.random() < 0.15 else rng.randint(1, h)
@@ -357,19 +549,120 @@ def _new_case(rng, op, tier):
                 nh = h + rng.randint(1, 3)
             if rng.random() < 0.3:
                 nw, nh = w + 1, h + 1
-        case.update(new_w=nw, new_h=nh)
+        out.update(new_w=nw, new_h=nh, size_kind=rng.choice(["int", "int", "int", "str", "float", "npint"]))
     elif op == "bin":
         b = rng.choice([1, 2, 2, 2, 3, 3, 4, 5])
         if rng.random() < 0.6:
             fit = lambda s: (s // b) * b if (s // b) * b >= 4 else b * -(-4 // b)
-            case["h"], case["w"] = fit(h), fit(w)
-        case.update(b=b, den=rng.choice([1, 2, 4]) if case["dtype"] == "f32" else 1)
+            out["h"], out["w"] = fit(h), fit(w)
+        out.update(b=b, den=rng.choice([1, 2, 4]) if case["dtype"] == "f32" else 1)
+    return out
+
+
+def _omit(rng):
+    if rng.random() < 0.35:        # G1: ~1/3 of the cases leave out every keyword whose value is the signature default
+        names = ["input_order", "output_order", "output_file", "numbered_from_1", "new_width", "new_height"]
+        return names if rng.random() < 0.6 else [x for x in names if rng.random() < 0.6]
+    return []
+
+
+def _new_case(rng, op, tier):
+    big = rng.random() < (0.25 if tier != "search" else 0.05)
+    n = rng.randint(2, 25 if big else 8)
+    hi = 40 if big else (16 if tier != "search" else 9)
+    if op == "remove" and not big and rng.random() < 0.35:     # many tilts, small images: index subsets of large stacks
+        n = rng.randint(9, 25)
+        hi = 9
+    h = rng.randint(4, hi)
+    w = rng.randint(4, hi)
+    if h == w and rng.random() < 0.9:
+        w = w + 1 if w < 40 else w - 1
+    case = dict(op=op, n=n, h=h, w=w, dtype=rng.choice(["f32", "i16"]), va=rng.randrange(1, 1 << 16), vc=rng.randrange(0, 1 << 16),
+                cfg=[rng.choice(INPUTS), rng.choice(["xyz", "zyx"]), rng.random() < 0.5], view=rng.random() < 0.5, as_array=rng.random() < 0.5,
+                omit=_omit(rng))
+    if case["omit"] and rng.random() < 0.7:    # make the reference configuration (the one the model executes) one where defaults matter
+        case["cfg"] = [rng.choice(["arr_xyz", "file_xyz"]), "xyz", rng.random() < 0.4]
+    bad = rng.random() < 0.08
+    case.update(_params_for(rng, op, case, tier, bad))
+    if op == "remove" and case["omit"] and rng.random() < 0.6 and not bad:   # with the keyword omitted the indices are 1-based
+        b = 1 if case["base1"] else 0
+        case["idxs"] = [i - b + 1 for i in case["idxs"]]
+        case["base1"] = True
+    return case
+
+
+def _new_seq(rng, tier):
+    """G2: several library calls in one process on the same file path / the same caller-owned argument objects"""
+    mode = rng.choice(["inplace", "inplace", "rewrite", "shared", "shared"])
+    n = rng.randint(3, 12)
+    h = rng.randint(4, 9)
+    w = rng.randint(4, 9)
+    if h == w:
+        w += 1
+    case = dict(op="seq", mode=mode, n=n, h=h, w=w, dtype=rng.choice(["f32", "i16"]), va=rng.randrange(1, 1 << 16), vc=rng.randrange(0, 1 << 16),
+                out=rng.choice(["xyz", "zyx"]), omit=_omit(rng))
+    cur = dict(case)
+    if mode == "shared":
+        op = rng.choice(["remove", "remove", "remove", "sort", "flip"])
+        st = dict(op=op, n=n, h=h, w=w, dtype=case["dtype"])
+        st.update(_params_for(rng, op, st, tier, False))
+        if op == "remove":
+            st["idx_src"] = rng.choice(["array", "array", "array", "list", "txt" if len(st["idxs"]) > 1 else "array"])
+        if op == "sort":
+            st["angles"] = st["angles"][:n] if len(st["angles"]) >= n else [f2b(float(i * 3 - 20)) for i in rng.sample(range(n), n)]
+            st["ang_src"] = rng.choice(["array", "array", "list", "tlt"])
+        if op == "flip" and st["axes_kind"] == "tuple":
+            st["axes_kind"] = "list"
+        case["steps"] = [st]
+        case["inputs"] = [rng.choice(["arr_zyx", "arr_xyz", "file"]) for _ in range(rng.randint(2, 4))]
+        return case
+    steps = []
+    if rng.random() < 0.4:
+        ax = rng.choice([["x"], ["y"], ["z"], ["x", "y"], ["z", "x"]])
+        kind = "str" if len(ax) == 1 and rng.random() < 0.5 else "list"
+        for _ in range(rng.randint(2, 3)):
+            steps.append(dict(op="flip", axes=ax if kind == "list" else ax[0], axes_kind=kind))
+    else:
+        for _ in range(rng.randint(2, 3)):
+            op = rng.choice(["flip", "flip", "sort", "remove", "crop"])
+            if op == "remove" and cur["n"] < 3:
+                op = "flip"
+            st = dict(op=op)
+            p = _params_for(rng, op, cur, tier, False)
+            if op == "sort":
+                p["angles"] = p["angles"][:cur["n"]] if len(p["angles"]) >= cur["n"] else [f2b(float(i * 3 - 20)) for i in rng.sample(range(cur["n"]), cur["n"])]
+                p["ang_src"] = rng.choice(["list", "array"])
+            if op == "remove":
+                b = 1 if p["base1"] else 0
+                keep_min = 2
+                uniq = sorted(set(p["idxs"]))
+                uniq = uniq[:max(1, cur["n"] - keep_min)]
+                p["idxs"] = uniq
+                p["idx_src"] = rng.choice(["list", "array"])
+                cur["n"] -= len(uniq)
+            if op == "crop":
+                p["new_w"] = None if p["new_w"] is None else max(4, p["new_w"])
+                p["new_h"] = None if p["new_h"] is None else max(4, p["new_h"])
+                cur["w"] = cur["w"] if p["new_w"] is None else p["new_w"]
+                cur["h"] = cur["h"] if p["new_h"] is None else p["new_h"]
+            if op == "flip" and p["axes_kind"] == "tuple":
+                p["axes_kind"] = "list"
+            st.update(p)
+            steps.append(st)
+    for k, st in enumerate(steps):
+        st["write"] = True if mode == "inplace" else (rng.random() < 0.3)
+        if mode == "rewrite" and k > 0:
+            st["rewrite"] = [rng.randrange(1, 1 << 16), rng.randrange(0, 1 << 16)]
+    case["steps"] = steps
     return case
 
 
 def generate(rng, tier, n):
     for t in range(n):
-        yield _new_case(rng, OPS[t % len(OPS)] if rng.random() < 0.8 else rng.choice(OPS), tier)
+        if rng.random() < 0.12:
+            yield _new_seq(rng, tier)
+        else:
+            yield _new_case(rng, OPS[t % len(OPS)] if rng.random() < 0.8 else rng.choice(OPS), tier)
 
 
 def _resize(case, n=None, h=None, w=None):
@@ -381,7 +674,12 @@ def _resize(case, n=None, h=None, w=None):
         return None
     b = 1 if c.get("base1") else 0
     if c["op"] == "sort":
-        c["angles"] = c["angles"][:n]
+        if len(c["angles"]) == c["n"]:
+            c["angles"] = c["angles"][:n]
+        elif len(c["angles"]) > c["n"]:
+            c["angles"] = c["angles"][:n + 1]
+        else:
+            c["angles"] = c["angles"][:max(1, min(len(c["angles"]), n - 1))]
     if c["op"] == "remove":
         keep = [i for i in c["idxs"] if i - b < n or i - b == c["n"]]
         keep = [i if i - b < n else n + b for i in keep]
@@ -398,6 +696,18 @@ def _resize(case, n=None, h=None, w=None):
 
 
 def shrink(case):
+    if case["op"] == "seq":
+        if case["mode"] == "shared":
+            if len(case["inputs"]) > 2:
+                yield dict(case, inputs=case["inputs"][:-1])
+                yield dict(case, inputs=case["inputs"][1:])
+        elif len(case["steps"]) > 1:
+            yield dict(case, steps=case["steps"][:-1])
+        if case.get("omit"):
+            yield dict(case, omit=[])
+        if (case["va"], case["vc"]) != (1, 0):
+            yield dict(case, va=1, vc=0)
+        return
     for kw in (dict(n=2), dict(n=3), dict(n=case["n"] // 2), dict(n=case["n"] - 1),
                dict(h=4), dict(w=5), dict(h=case["h"] // 2), dict(w=case["w"] // 2), dict(h=case["h"] - 1), dict(w=case["w"] - 1)):
         c = _resize(case, **kw)
@@ -411,6 +721,11 @@ def shrink(case):
             yield dict(case, axes=case["axes"][:i] + case["axes"][i + 1:])
     if case["op"] == "bin" and case.get("den", 1) != 1:
         yield dict(case, den=1)
+    if case.get("omit"):
+        yield dict(case, omit=[])
+    for key, plain in (("ang_src", "list"), ("idx_src", "list"), ("size_kind", "int")):
+        if case.get(key, plain) != plain and not (key == "idx_src" and case[key] in ("csv", "txt")):
+            yield dict(case, **{key: plain})
     if (case["va"], case["vc"]) != (1, 0):
         yield dict(case, va=1, vc=0)
 
@@ -424,38 +739,164 @@ def _err_kind(e):
     if isinstance(e, ValueError) and "can't be empty" in s: return "empty-indices"
     if isinstance(e, ValueError) and "only 1 tilt" in s: return "single-tilt"
     if isinstance(e, ValueError) and "axes can be" in s: return "axis"
+    if isinstance(e, IndexError) and "out of bounds for axis 0" in s: return "angle-index"
+    if isinstance(e, TypeError) and ("not iterable" in s or "0-d" in s): return "scalar-index"
     return f"other:{type(e).__name__}: {s[:160]}"
 
 
-def _call(tiltstack, case, stack_arg, in_order, out_order, out_path):
-    """one call of the real function; returns the list of returned arrays and the list of files it should have written"""
+def _in_cryocat(e):
+    """G4: does the traceback pass through the code under test?"""
+    import traceback
+    return any("/cryocat/" in fr.filename.replace("\\", "/") for fr in traceback.extract_tb(e.__traceback__))
+
+
+def _error_of(e):
+    return _err_kind(e) if _in_cryocat(e) else f"foreign:{type(e).__name__}: {str(e)[:160]}"
+
+
+def _src_of(case, key):
+    d = case.get(key)
+    if d is None:
+        d = "array" if case.get("as_array") else "list"
+    return d
+
+
+def _mdoc_text(angles):
+    txt = "PixelSpacing = 1.35\nImageFile = ts.mrc\nImageSize = 10 7\nDataMode = 1\n\n[T = SerialEM: C15 harness]\n\n"
+    for z, a in enumerate(angles):
+        txt += f"[ZValue = {z}]\nTiltAngle = {a!r}\nExposureDose = 3.0\n\n"
+    return txt
+
+
+def _make_arg(case, td, tag="arg"):
+    """the caller-owned second argument, built ONCE per case and re-used for every call of the case (G2).
+    Returns (object, snapshot function)"""
     op = case["op"]
-    kw = dict(input_order=in_order, output_order=out_order)
+    if op == "sort":
+        ang = [b2f(a) for a in case["angles"]]
+        src = _src_of(case, "ang_src")
+        if src == "list":
+            return ang
+        if src == "array":
+            return np.array(ang)
+        path = os.path.join(td, f"{tag}.{'mdoc' if src == 'mdoc' else src}")
+        with open(path, "w") as f:
+            f.write(_mdoc_text(ang) if src == "mdoc" else "".join((" " if src == "rawtlt" else "") + repr(a) + "\n" for a in ang))
+        return path
+    if op == "remove":
+        src = _src_of(case, "idx_src")
+        if src == "list":
+            return list(case["idxs"])
+        if src == "array":
+            return np.array(case["idxs"], dtype=np.int64)
+        if src == "array32":
+            return np.array(case["idxs"], dtype=np.int32)
+        b = 1 if case["base1"] else 0
+        if src == "txt":
+            path = os.path.join(td, f"{tag}.txt")
+            with open(path, "w") as f:
+                f.write("".join(f"{i}\n" for i in case["idxs"]))
+            return path
+        path = os.path.join(td, f"{tag}.csv")
+        flagged = {i - b for i in case["idxs"]}
+        with open(path, "w") as f:
+            f.write("ToBeRemoved,Removed\n" if case.get("csv_removed_col") else "ToBeRemoved\n")
+            for i in range(case["n"]):
+                f.write(("True" if i in flagged else "False") + (",False\n" if case.get("csv_removed_col") else "\n"))
+        return path
+    if op == "flip":
+        kind = case.get("axes_kind") or ("list" if isinstance(case["axes"], list) else "str")
+        if kind == "str":
+            return case["axes"] if isinstance(case["axes"], str) else case["axes"][0]
+        return tuple(case["axes"]) if kind == "tuple" else list(case["axes"])
+    return None
+
+
+def _snap(arg):
+    if isinstance(arg, np.ndarray):
+        return ("nd", str(arg.dtype), arg.tolist())
+    if isinstance(arg, str) and os.path.isfile(arg):
+        return ("file", open(arg, "rb").read())
+    if isinstance(arg, (list, tuple)):
+        return (type(arg).__name__, list(arg))
+    return ("val", arg)
+
+
+def _size_arg(case, v):
+    if v is None:
+        return None
+    kind = case.get("size_kind", "int")
+    return {"int": int(v), "str": str(v), "float": float(v), "npint": np.int64(v)}[kind]
+
+
+def _kw(case, **pairs):
+    omit = set(case.get("omit") or [])
+    return {k: v for k, v in pairs.items() if not (k in omit and k in DEFAULTS and v == DEFAULTS[k] and type(v) == type(DEFAULTS[k]))}
+
+
+def _passed(case, name, value):
+    return name in _kw(case, **{name: value})
+
+
+def _call(tiltstack, case, stack_arg, in_order, out_order, out_path, arg, omit_from=None):
+    """one call of the real function; returns the list of returned objects and the list of files it should have written"""
+    op = case["op"]
+    oc = omit_from or case
     with contextlib.redirect_stdout(io.StringIO()):
-        if op == "sort":
-            ang = [b2f(a) for a in case["angles"]]
-            r = tiltstack.sort_tilts_by_angle(stack_arg, np.array(ang) if case["as_array"] else ang, output_file=out_path, **kw)
-        elif op == "remove":
-            idx = np.array(case["idxs"], dtype=int) if case["as_array"] else list(case["idxs"])
-            r = tiltstack.remove_tilts(stack_arg, idx, numbered_from_1=case["base1"], output_file=out_path, **kw)
-        elif op == "split":
+        if op == "split":
             prefix = out_path[:-4] if out_path else None
-            r = tiltstack.split_stack_even_odd(stack_arg, output_file_prefix=prefix, **kw)
+            r = tiltstack.split_stack_even_odd(stack_arg, **_kw(oc, output_file_prefix=prefix, input_order=in_order, output_order=out_order))
             return list(r), ([prefix + "_even.mrc", prefix + "_odd.mrc"] if prefix else [])
+        kw = _kw(oc, output_file=out_path, input_order=in_order, output_order=out_order)
+        if op == "sort":
+            r = tiltstack.sort_tilts_by_angle(stack_arg, arg, **kw)
+        elif op == "remove":
+            r = tiltstack.remove_tilts(stack_arg, arg, **_kw(oc, numbered_from_1=bool(case["base1"])), **kw)
         elif op == "flip":
-            r = tiltstack.flip_along_axes(stack_arg, case["axes"], output_file=out_path, **kw)
+            r = tiltstack.flip_along_axes(stack_arg, arg, **kw)
         elif op == "crop":
-            r = tiltstack.crop(stack_arg, new_width=case["new_w"], new_height=case["new_h"], output_file=out_path, **kw)
+            r = tiltstack.crop(stack_arg, **_kw(oc, new_width=_size_arg(case, case["new_w"]), new_height=_size_arg(case, case["new_h"])), **kw)
         elif op == "bin":
-            r = tiltstack.bin(stack_arg, case["b"] if case["as_array"] else str(case["b"]), output_file=out_path, **kw)
+            r = tiltstack.bin(stack_arg, case["b"] if case["as_array"] else str(case["b"]), **kw)
         else:
             raise ValueError(op)
     return [r], ([out_path] if out_path else [])
 
 
-def run_impl(case):
+def _norm(r, out, dtype):
+    """returned object -> codes in n,y,x order (None when it is not a 3-D numpy array)"""
+    if not isinstance(r, np.ndarray) or r.ndim != 3:
+        return None
+    return codes_of(r if out == "zyx" else np.transpose(r, (2, 1, 0)), dtype)
+
+
+def _file_detail(files, norm, rets, dtype):
+    for k, f in enumerate(files):
+        want_mode = {"int16": 1, "float32": 2}.get(str(getattr(rets[k], "dtype", "")), 1 if dtype == "i16" else 2)
+        if not f["ok"]:
+            return f"output file {k}: {f['why']}"
+        if norm[k] is None:
+            return f"output file {k}: the call returned {_type_tag(rets[k])}, not a 3-D array"
+        if f["dims"] != list(norm[k].shape[::-1]):
+            return f"output file {k}: header nx,ny,nz={f['dims']} but the returned stack is (x,y,n)={list(norm[k].shape[::-1])}"
+        if f["mode"] != want_mode:
+            return f"output file {k}: MRC mode {f['mode']} but the returned stack is {getattr(rets[k], 'dtype', None)}"
+        if not np.array_equal(f["codes"], norm[k].ravel()):
+            j = int(np.flatnonzero(f["codes"] != norm[k].ravel())[0])
+            return f"output file {k}: voxel #{j} (x fastest) differs from the returned stack"
+    return ""
+
+
+def _write_mrc(path, arr):
     import mrcfile
+    with mrcfile.new(path, overwrite=True) as m:
+        m.set_data(np.ascontiguousarray(arr))
+
+
+def run_impl(case):
     from cryocat import tiltstack
+    if case["op"] == "seq":
+        return _run_seq(case, tiltstack)
     X = stack_of(case)                                # n,y,x
     dtype = case["dtype"]
     Xc = codes_of(X, dtype)
@@ -465,59 +906,58 @@ def run_impl(case):
     norm0 = None
     with tempfile.TemporaryDirectory(prefix="c15_") as td:
         in_path = os.path.join(td, "input.mrc")
-        with mrcfile.new(in_path, overwrite=True) as m:
-            m.set_data(np.ascontiguousarray(X))
+        _write_mrc(in_path, X)
         p = parse_mrc(in_path)
+        in_bytes = open(in_path, "rb").read()
         obs["input_file_ok"] = bool(p["ok"] and p["dims"] == [case["w"], case["h"], case["n"]] and np.array_equal(p["codes"], Xc.ravel()))
+        arg = _make_arg(case, td)                      # ONE object for all 16 calls
+        arg0 = _snap(arg)
         configs = [ref_cfg] + [[i, o, wr] for i in INPUTS for o in ("xyz", "zyx") for wr in (True, False) if [i, o, wr] != ref_cfg]
         for ci, (inp, out, wr) in enumerate(configs):
-            arg = {"arr_xyz": xyz, "arr_zyx": X, "file_xyz": in_path, "file_zyx": in_path}[inp]
+            sarg = {"arr_xyz": xyz, "arr_zyx": X, "file_xyz": in_path, "file_zyx": in_path}[inp]
             in_order = inp[-3:]
             out_path = os.path.join(td, f"out{ci}.mrc") if wr else None
-            before = codes_of(arg, dtype).copy() if not isinstance(arg, str) else None
+            before = codes_of(sarg, dtype).copy() if not isinstance(sarg, str) else None
             rec = dict(cfg=[inp, out, wr])
             try:
-                rets, paths = _call(tiltstack, case, arg, in_order, out, out_path)
+                rets, paths = _call(tiltstack, case, sarg, in_order, out, out_path, arg)
             except Exception as e:
-                rec["error"] = _err_kind(e)
+                rec["error"] = _error_of(e)
                 if ci == 0:
                     obs["ref"] = dict(error=rec["error"])
                 else:
                     rec["same"] = obs["ref"].get("error") == rec["error"]
                     rec["detail"] = f"raises {rec['error']}"
                 rec["files_left"] = sorted(f for f in os.listdir(td) if f.startswith(f"out{ci}"))
+                rets = None
+            if (before is not None and not np.array_equal(before, codes_of(sarg, dtype))) or (before is None and open(in_path, "rb").read() != in_bytes):
+                rec["mutated_input"] = True
+            if _snap(arg) != arg0:
+                rec["arg_modified"] = f"{arg0[1] if arg0[0] != 'file' else 'file'} -> {_snap(arg)[1] if arg0[0] != 'file' else 'file content changed'}"[:200]
+            if rets is None:
                 obs["configs"].append(rec)
                 continue
-            if before is not None and not np.array_equal(before, codes_of(arg, dtype)):
-                rec["mutated_input"] = True
-            norm = [codes_of(r if out == "zyx" else np.transpose(r, (2, 1, 0)), dtype) for r in rets]
+            rec["types"] = [_type_tag(r) for r in rets]
+            norm = [_norm(r, out, dtype) for r in rets]
             files = [parse_mrc(pth) if os.path.exists(pth) else dict(ok=False, why="file not written") for pth in paths]
-            fdetail = ""
-            for k, f in enumerate(files):
-                want_mode = 1 if dtype == "i16" else 2
-                if not f["ok"]:
-                    fdetail = f"output file {k}: {f['why']}"
-                elif f["dims"] != list(norm[k].shape[::-1]):
-                    fdetail = f"output file {k}: header nx,ny,nz={f['dims']} but the returned stack is (x,y,n)={list(norm[k].shape[::-1])}"
-                elif f["mode"] != want_mode:
-                    fdetail = f"output file {k}: mode {f['mode']} for a {dtype} stack"
-                elif not np.array_equal(f["codes"], norm[k].ravel()):
-                    j = int(np.flatnonzero(f["codes"] != norm[k].ravel())[0])
-                    fdetail = f"output file {k}: voxel #{j} (x fastest) differs from the returned stack"
-                if fdetail:
-                    break
-            rec["file_detail"] = fdetail
-            rec["dtypes"] = [str(r.dtype) for r in rets]
+            rec["file_detail"] = _file_detail(files, norm, rets, dtype)
+            if any(a is None for a in norm):
+                rec["not_array"] = True
+                norm = [a if a is not None else np.zeros((0, 0, 0), dtype=np.int64) for a in norm]
             if ci == 0:
                 norm0 = norm
-                obs["ref"] = dict(returned=[dict(shape=list(r.shape), data=codes_of(r, dtype).ravel().tolist()) for r in rets],
+                obs["ref"] = dict(returned=[dict(shape=list(getattr(r, "shape", [])), data=(codes_of(r, dtype).ravel().tolist() if isinstance(r, np.ndarray) else None)) for r in rets],
                                   written=[dict(dims=f.get("dims"), mode=f.get("mode"), data=f["codes"].tolist() if "codes" in f else None) for f in files],
-                                  dtypes=rec["dtypes"])
-                if case["op"] == "flip":
+                                  types=rec["types"])
+                if case["op"] == "flip" and not rec.get("not_array"):
                     # the statement "flipping along an axis twice is the identity": feed the result back, same arguments
-                    again, _ = _call(tiltstack, case, rets[0], out, out, None)
-                    back = codes_of(again[0] if out == "zyx" else np.transpose(again[0], (2, 1, 0)), dtype)
-                    obs["twice_identity"] = bool(back.shape == Xc.shape and np.array_equal(back, Xc))
+                    try:
+                        again, _ = _call(tiltstack, case, rets[0], out, out, None, arg)
+                        back = _norm(again[0], out, dtype)
+                        obs["twice_identity"] = bool(back is not None and back.shape == Xc.shape and np.array_equal(back, Xc))
+                    except Exception as e:
+                        obs["twice_identity"] = False
+                        obs["twice_error"] = _error_of(e)
             else:
                 if "error" in obs["ref"]:
                     rec["same"], rec["detail"] = False, f"returns although the reference configuration raises {obs['ref']['error']}"
@@ -531,78 +971,216 @@ def run_impl(case):
     return obs
 
 
+def _step_case(case, st, shape):
+    """a step of a sequence as a stand-alone single-operation case on a stack of the given shape"""
+    return dict(st, n=shape[0], h=shape[1], w=shape[2], dtype=case["dtype"], omit=case.get("omit") or [])
+
+
+def _run_seq(case, tiltstack):
+    dtype, out = case["dtype"], case["out"]
+    X = stack_of(dict(case, op="flip"))
+    obs = dict(calls=[])
+    with tempfile.TemporaryDirectory(prefix="c15s_") as td:
+        p = os.path.join(td, "work.mrc")
+        _write_mrc(p, X)
+        if case["mode"] == "shared":
+            st = _step_case(case, case["steps"][0], X.shape)
+            Xx = np.ascontiguousarray(X.transpose(2, 1, 0))
+            Xc = codes_of(X, dtype)
+            arg = _make_arg(st, td)
+            arg0 = _snap(arg)
+            for k, inp in enumerate(case["inputs"]):
+                sarg, in_order = {"arr_zyx": (X, "zyx"), "arr_xyz": (Xx, "xyz"), "file": (p, "xyz")}[inp]
+                rec = dict(inp=inp, input=dict(dims=[X.shape[2], X.shape[1], X.shape[0]], data=Xc.ravel().tolist()))
+                try:
+                    rets, _ = _call(tiltstack, st, sarg, in_order, out, None, arg)
+                    rec["types"] = [_type_tag(r) for r in rets]
+                    nr = _norm(rets[0], out, dtype)
+                    rec["returned"] = dict(shape=list(nr.shape), data=nr.ravel().tolist()) if nr is not None else None
+                except Exception as e:
+                    rec["error"] = _error_of(e)
+                if _snap(arg) != arg0:
+                    rec["arg_modified"] = f"{arg0[1] if arg0[0] != 'file' else 'file'} -> {_snap(arg)[1] if arg0[0] != 'file' else 'changed'}"[:200]
+                if not (np.array_equal(codes_of(X, dtype), Xc) and np.array_equal(codes_of(Xx, dtype), Xc.transpose(2, 1, 0))):
+                    rec["mutated_input"] = True
+                obs["calls"].append(rec)
+            return obs
+        for k, st0 in enumerate(case["steps"]):
+            f = parse_mrc(p)
+            if not f["ok"]:
+                obs["calls"].append(dict(error=f"foreign:work file unreadable before call {k}: {f['why']}"))
+                break
+            nx, ny, nz = f["dims"]
+            if st0.get("rewrite"):                       # the harness legitimately replaces the content of the SAME path (same shape and dtype)
+                va, vc = st0["rewrite"]
+                B = stack_of(dict(case, op="flip", n=nz, h=ny, w=nx, va=va, vc=vc))
+                _write_mrc(p, B)
+                f = parse_mrc(p)
+            Xin = f["codes"].reshape(nz, ny, nx)
+            st = _step_case(case, st0, (nz, ny, nx))
+            arg = _make_arg(st, td, tag=f"arg{k}")
+            rec = dict(input=dict(dims=[nx, ny, nz], data=Xin.ravel().tolist()), write=bool(st0.get("write")))
+            bytes_before = open(p, "rb").read()
+            try:
+                rets, _ = _call(tiltstack, st, p, "xyz", out, p if st0.get("write") else None, arg)
+                rec["types"] = [_type_tag(r) for r in rets]
+                nr = _norm(rets[0], out, dtype)
+                rec["returned"] = dict(shape=list(nr.shape), data=nr.ravel().tolist()) if nr is not None else None
+                g = parse_mrc(p)
+                if st0.get("write"):
+                    rec["file_detail"] = _file_detail([g], [nr], rets, dtype)
+                elif open(p, "rb").read() != bytes_before:
+                    rec["mutated_input"] = True
+            except Exception as e:
+                rec["error"] = _error_of(e)
+                if open(p, "rb").read() != bytes_before:
+                    rec["files_left"] = ["work.mrc rewritten although the call raised"]
+            obs["calls"].append(rec)
+            if "error" in rec:
+                break
+    return obs
+
+
 # ------------------------------------------------------------------ model requests
-def requests(case, obs):
-    inp, out, wr = case["cfg"]
-    n, h, w = case["n"], case["h"], case["w"]
-    data = (numerators(case) if case["op"] == "bin" else values(case)).reshape(n, h, w)
+def _request(case, data, inp, out, wr):
+    """driver request for ONE call of a single-operation case; data = codes (n,h,w) of the stack the call receives.
+    A keyword the adapter omitted is omitted here too: the model then applies the signature default held in Gen/C15.lean."""
+    n, h, w = data.shape
     if inp == "arr_xyz":
         payload = dict(kind="arr", shape=[w, h, n], data=np.ascontiguousarray(data.transpose(2, 1, 0)).ravel().tolist())
     elif inp == "arr_zyx":
         payload = dict(kind="arr", shape=[n, h, w], data=data.ravel().tolist())
     else:
         payload = dict(kind="file", nx=w, ny=h, nz=n, data=data.ravel().tolist())
-    req = dict(op=case["op"], input=payload, in_xyz=1 if inp[-3:] == "xyz" else 0, out_zyx=1 if out == "zyx" else 0, write=1 if wr else 0)
-    if case["op"] == "sort":
+    req = dict(op=case["op"], input=payload, write=1 if wr else 0)
+    in_order = "xyz" if inp in ("arr_xyz", "file_xyz", "file") else "zyx"
+    if _passed(case, "input_order", in_order):
+        req["in_xyz"] = 1 if in_order == "xyz" else 0
+    if _passed(case, "output_order", out):
+        req["out_zyx"] = 1 if out == "zyx" else 0
+    op = case["op"]
+    if op == "sort":
         req["angles"] = case["angles"]
-    elif case["op"] == "remove":
-        req.update(idxs=case["idxs"], base1=1 if case["base1"] else 0)
-    elif case["op"] == "flip":
-        req["axes"] = case["axes"] if isinstance(case["axes"], list) else [case["axes"]]
-    elif case["op"] == "crop":
+    elif op == "remove":
+        src = _src_of(case, "idx_src")
+        b = 1 if case["base1"] else 0
+        req.update(idxs=sorted({i - b for i in case["idxs"]}) if src == "csv" else case["idxs"], src={"txt": "txt", "csv": "csv"}.get(src, "list"))
+        if _passed(case, "numbered_from_1", bool(case["base1"])):
+            req["base1"] = 1 if case["base1"] else 0
+    elif op == "flip":
+        kind = case.get("axes_kind") or ("list" if isinstance(case["axes"], list) else "str")
+        req.update(axes=case["axes"] if isinstance(case["axes"], list) else [case["axes"]], axes_kind={"str": "one", "list": "list"}.get(kind, "other"))
+    elif op == "crop":
         req.update(new_w=-1 if case["new_w"] is None else case["new_w"], new_h=-1 if case["new_h"] is None else case["new_h"])
-    elif case["op"] == "bin":
+    elif op == "bin":
         req.update(b=case["b"], den=case.get("den", 1))
-    return [req]
+        if case["dtype"] == "i16":
+            req["cast"] = "i16"
+    return req
+
+
+def requests(case, obs):
+    if "error" in obs and "ref" not in obs and "calls" not in obs:
+        return []
+    if case["op"] == "seq":
+        reqs = []
+        for k, call in enumerate(obs.get("calls", [])):
+            if "input" not in call:
+                break
+            nx, ny, nz = call["input"]["dims"]
+            data = np.array(call["input"]["data"], dtype=np.int64).reshape(nz, ny, nx)
+            st = _step_case(case, case["steps"][0 if case["mode"] == "shared" else k], (nz, ny, nx))
+            inp = call.get("inp", "file")
+            reqs.append(_request(st, data, inp, case["out"], bool(call.get("write"))))
+        return reqs
+    inp, out, wr = case["cfg"]
+    n, h, w = case["n"], case["h"], case["w"]
+    data = (numerators(case) if case["op"] == "bin" else values(case)).reshape(n, h, w)
+    return [_request(case, data, inp, out, wr)]
 
 
 # ------------------------------------------------------------------ the statement, evaluated independently
 def _decode(case, codes):
-    """codes -> exact Fractions are only needed for binning; elsewhere codes are compared as opaque labels"""
+    """codes -> exact values are only needed for binning; elsewhere codes are compared as opaque labels"""
     if case["dtype"] == "i16":
         return codes.astype(np.float64)
     return codes.astype(np.uint32).view(np.float32).astype(np.float64)
 
 
-def _spec(case, res):
-    """res: list of result stacks as code arrays in n,y,x order. Returns (clause, detail) of the first clause of the statement that fails."""
+def _expect(case):
+    """independent evaluation of the documented domain: ('ok', None) inside the statement's quantifier, ('reject', kind) where the
+    documentation announces a refusal, ('outside', why) for inputs the statement does not speak about (judged against the model only)"""
+    op, n, h, w = case["op"], case["n"], case["h"], case["w"]
+    if op == "sort" and len(case["angles"]) != n:
+        return "outside", "the angle list has another length than the stack"
+    if op == "remove":
+        src = _src_of(case, "idx_src")
+        b = 1 if case["base1"] else 0
+        if src not in ("csv", "txt") and not case["idxs"]:
+            return "reject", "empty-indices"
+        if any(i < b or i >= n + b for i in case["idxs"]):
+            return "reject", "index"
+        if src in ("csv", "txt") and not case["idxs"]:
+            return "outside", "an index file without entries"
+    if op == "flip":
+        kind = case.get("axes_kind") or ("list" if isinstance(case["axes"], list) else "str")
+        if kind == "tuple":
+            return "outside", "axes passed as a tuple (documented: list of str)"
+        ax = case["axes"] if isinstance(case["axes"], list) else [case["axes"]]
+        if any(a not in ("x", "y", "z") for a in ax):
+            return "reject", "axis"
+    if op == "crop":
+        if case["new_w"] is not None and case["new_w"] > w:
+            return "reject", "crop-width"
+        if case["new_h"] is not None and case["new_h"] > h:
+            return "reject", "crop-height"
+    return "ok", None
+
+
+def _spec(case, X, res):
+    """X: codes (n,h,w) of the stack the call received; res: list of result stacks as code arrays in n,y,x order.
+    Returns (kind, clause, detail) of the first clause of the statement that fails, else None. Nothing here looks at the model."""
     op = case["op"]
-    X = values(case).reshape(case["n"], case["h"], case["w"])
     n, h, w = X.shape
     if op == "sort":
         ang = [b2f(a) for a in case["angles"]]
         order = sorted(range(n), key=lambda i: ang[i])
         exp = X[order]
         if res[0].shape != exp.shape or not np.array_equal(res[0], exp):
-            return "sort-ascending-permutation", f"result is not the input images in ascending-angle order {order}"
+            return "spec", "sort-ascending-permutation", f"result is not the input images in ascending-angle order {order}"
     elif op == "remove":
-        b = 1 if case["base1"] else 0
+        b = 1 if case["base1"] else 0                        # for a csv file the harness flags rows idx - b: the same set of images
         keep = [i for i in range(n) if (i + b) not in set(case["idxs"])]
         exp = X[keep]
         if res[0].shape != exp.shape or not np.array_equal(res[0], exp):
-            return "remove-keeps-exactly-the-others", f"result is not the images {keep} (0-based) in their original order; result has {res[0].shape[0]} images"
+            return "spec", "remove-keeps-exactly-the-others", f"result is not the images {keep} (0-based) in their original order; result has {res[0].shape[0]} images"
     elif op == "split":
         ev, od = res
         if ev.shape[1:] != (h, w) or od.shape[1:] != (h, w) or ev.shape[0] + od.shape[0] != n or not (od.shape[0] <= ev.shape[0] <= od.shape[0] + 1):
-            return "split-interleaves-back", f"even/odd stacks have shapes {ev.shape}/{od.shape} for an input of {X.shape}"
+            return "spec", "split-interleaves-back", f"even/odd stacks have shapes {ev.shape}/{od.shape} for an input of {X.shape}"
         Z = np.empty_like(X)
         Z[0::2], Z[1::2] = ev, od
         if not np.array_equal(Z, X):
-            return "split-interleaves-back", "interleaving the even and the odd stack does not give the input back"
+            return "spec", "split-interleaves-back", "interleaving the even and the odd stack does not give the input back"
     elif op == "flip":
         if res[0].shape != X.shape or sorted(res[0].ravel().tolist()) != sorted(X.ravel().tolist()):
-            return "flip-is-a-rearrangement", f"flipped stack has shape {res[0].shape} / other voxels than the input {X.shape}"
+            return "spec", "flip-is-a-rearrangement", f"flipped stack has shape {res[0].shape} / other voxels than the input {X.shape}"
+        exp = X                                               # the documented convention (IMOD clip flipx / flipy / flipz), evaluated directly
+        for a in (case["axes"] if isinstance(case["axes"], list) else [case["axes"]]):
+            exp = {"x": exp[:, ::-1, :], "y": exp[:, :, ::-1], "z": exp[::-1, :, :]}[a]
+        if not np.array_equal(res[0], exp):
+            return "spec", "flip-reverses-the-named-axis", f"axes {case['axes']}: result is not the input with 'x' -> rows (y index), 'y' -> columns (x index), 'z' -> tilt order reversed"
     elif op == "crop":
         nh = h if case["new_h"] is None else case["new_h"]
         nw = w if case["new_w"] is None else case["new_w"]
         if res[0].shape != (n, nh, nw):
-            return "crop-central-window", f"cropped stack has (n,h,w)={res[0].shape}, requested {(n, nh, nw)}"
+            return "spec", "crop-central-window", f"cropped stack has (n,h,w)={res[0].shape}, requested {(n, nh, nw)}"
         ok = False
         for sh in {(h - nh) // 2, (h - nh + 1) // 2}:       # margins on the two sides differ by at most one pixel
             for sw in {(w - nw) // 2, (w - nw + 1) // 2}:
                 ok = ok or np.array_equal(res[0], X[:, sh:sh + nh, sw:sw + nw])
         if not ok:
-            return "crop-central-window", "cropped stack is not a centred window of the input (margins differing by at most one pixel)"
+            return "spec", "crop-central-window", "cropped stack is not a centred window of the input (margins differing by at most one pixel)"
     elif op == "bin":
         b, den = case["b"], case.get("den", 1)
         N = numerators(case).reshape(n, h, w)
@@ -610,58 +1188,65 @@ def _spec(case, res):
         S = N[:, :fh * b, :fw * b].reshape(n, fh, b, fw, b).sum(axis=(2, 4))          # exact integer block sums
         got = _decode(case, res[0])
         if got.shape[0] != n or got.shape[1] < fh or got.shape[2] < fw:
-            return "bin-block-means", f"binned stack has shape {got.shape}, expected at least {(n, fh, fw)}"
+            return "spec", "bin-block-means", f"binned stack has shape {got.shape}, expected at least {(n, fh, fw)}"
         g = got[:, :fh, :fw]
         mean = S.astype(np.float64) / float(b * b * den)
         if case["dtype"] == "f32":
             bad = g != mean.astype(np.float32).astype(np.float64)
+            if bad.any():
+                z, j, i = [int(v[0]) for v in np.nonzero(bad)]
+                return "spec", "bin-block-means", f"block (tilt {z}, row {j}, col {i}): returned {g[z, j, i]}, block mean {Fraction(int(S[z, j, i]), b * b * den)}"
         else:
-            bad = ~(np.abs(g - mean) < 1.0) | ((S % (b * b) == 0) & (g != mean))
-        if bad.any():
-            z, j, i = [int(v[0]) for v in np.nonzero(bad)]
-            return "bin-block-means", f"block (tilt {z}, row {j}, col {i}): returned {g[z, j, i]}, block mean {Fraction(int(S[z, j, i]), b * b * den)}"
+            trunc = np.sign(S) * (np.abs(S) // (b * b))           # the block mean truncated toward zero, in exact integer arithmetic
+            far = ~(np.abs(g - mean) < 1.0) | ((S % (b * b) == 0) & (g != mean))
+            if far.any():
+                z, j, i = [int(v[0]) for v in np.nonzero(far)]
+                return "spec", "bin-block-means", f"block (tilt {z}, row {j}, col {i}): returned {g[z, j, i]}, block mean {Fraction(int(S[z, j, i]), b * b)}"
+            off = g != trunc
+            if off.any():
+                z, j, i = [int(v[0]) for v in np.nonzero(off)]
+                return "corr", "bin-int16-cast-is-not-truncation", (f"block (tilt {z}, row {j}, col {i}): returned {g[z, j, i]}, block mean {Fraction(int(S[z, j, i]), b * b)}: "
+                                                                   f"an integer neighbour of the mean, but not the mean truncated toward zero ({int(trunc[z, j, i])}) that the int16 cast is recorded to give")
     return None
 
 
-def _model_diff(case, obs, model):
-    """exact comparison of the reference configuration with the Lean model's answer"""
-    ref = obs["ref"]
+def _model_diff(case, ref, model):
+    """exact comparison of one call with the Lean model's answer"""
     if "error" in model:
         return f"model answers {model['error']}, implementation returned"
     if len(model["returned"]) != len(ref["returned"]):
         return "number of returned stacks"
-    inp, out, wr = case["cfg"]
     for k, (m, r) in enumerate(zip(model["returned"], ref["returned"])):
+        if r is None or r.get("data") is None:
+            return f"returned[{k}] is not an array"
         if m["shape"] != r["shape"]:
             return f"returned[{k}] shape {r['shape']} vs model {m['shape']}"
         d = _values_differ(case, m["data"], r["data"])
         if d:
             return f"returned[{k}] " + d
-    if len(model["written"]) != len(ref["written"]):
-        return f"{len(ref['written'])} files written vs model {len(model['written'])}"
-    for k, (m, r) in enumerate(zip(model["written"], ref["written"])):
-        if m["dims"] != r["dims"]:
-            return f"file[{k}] header {r['dims']} vs model {m['dims']}"
-        d = _values_differ(case, m["data"], r["data"])
-        if d:
-            return f"file[{k}] " + d
+    if "written" in ref:
+        if len(model["written"]) != len(ref["written"]):
+            return f"{len(ref['written'])} files written vs model {len(model['written'])}"
+        for k, (m, r) in enumerate(zip(model["written"], ref["written"])):
+            if m["dims"] != r["dims"]:
+                return f"file[{k}] header {r['dims']} vs model {m['dims']}"
+            d = _values_differ(case, m["data"], r["data"])
+            if d:
+                return f"file[{k}] " + d
     return None
 
 
 def _values_differ(case, mdata, rdata):
     if rdata is None or len(mdata) != len(rdata):
         return "payload length"
-    if case["op"] != "bin":
+    if case["op"] != "bin" or case["dtype"] == "i16":      # int16 binning: the model applies the truncating cast itself
         if mdata != rdata:
             j = next(i for i, (a, b) in enumerate(zip(mdata, rdata)) if a != b)
             return f"voxel #{j}: implementation code {rdata[j]}, model {mdata[j]}"
         return None
     got = _decode(case, np.array(rdata, dtype=np.int64))
     q = np.array([a / b for a, b in mdata], dtype=np.float64)          # exact: dyadic/25-type quotients of small integers, correctly rounded
-    if case["dtype"] == "f32":
-        bad = got != q.astype(np.float32).astype(np.float64)
-    else:
-        bad = ~(np.abs(got - q) < 1.0)
+    bad = got != q.astype(np.float32).astype(np.float64)
     if bad.any():
         j = int(np.flatnonzero(bad)[0])
         return f"voxel #{j}: implementation {got[j]}, model block mean {mdata[j][0]}/{mdata[j][1]}"
@@ -669,29 +1254,102 @@ def _values_differ(case, mdata, rdata):
 
 
 def max_bin_dev(case, obs, model):
-    if case["op"] != "bin" or "error" in obs.get("ref", {}) or "error" in model:
+    if case["op"] != "bin" or "error" in obs.get("ref", {}) or "error" in model or case["dtype"] == "i16":
         return None
     got = _decode(case, np.array(obs["ref"]["returned"][0]["data"], dtype=np.int64))
     q = np.array([a / b for a, b in model["returned"][0]["data"]], dtype=np.float64)
     return float(np.max(np.abs(got - q))) if got.shape == q.shape and got.size else None
 
 
+def _judge_error(case, err, model, where, status, why):
+    """one call raised `err`"""
+    out = []
+    if err.startswith("foreign:"):            # G4: no frame of the traceback lies inside cryocat
+        return [dict(kind="corr", clause="harness-or-library-raised", detail=f"{where}: {err[8:]}")]
+    if status == "ok":                        # decided without the model: the input is inside the statement's quantifier
+        out.append(dict(kind="spec", clause="raises-on-valid-input", detail=f"{case['op']} raises {err} {where}"))
+    if "error" not in model:
+        if status != "ok":
+            out.append(dict(kind="corr", clause="raises-where-model-returns", detail=f"{case['op']} raises {err} {where} ({why}); the model returns"))
+    elif model["error"] != "reject:" + err:
+        out.append(dict(kind="corr", clause="error-kind", detail=f"implementation {err} vs model {model['error']} {where}"))
+    return out
+
+
+def _judge_seq(case, obs, resps):
+    out = []
+    calls = obs.get("calls", [])
+    for k, call in enumerate(calls):
+        where = f"(call #{k + 1} of {len(calls)} in one process, mode {case['mode']}" + (f", input {call['inp']}" if "inp" in call else "") + ")"
+        if "input" not in call:
+            out.append(dict(kind="corr", clause="harness-or-library-raised", detail=call.get("error", "")[:300]))
+            break
+        nx, ny, nz = call["input"]["dims"]
+        Xin = np.array(call["input"]["data"], dtype=np.int64).reshape(nz, ny, nx)
+        st = _step_case(case, case["steps"][0 if case["mode"] == "shared" else k], (nz, ny, nx))
+        model = resps[k] if k < len(resps) else {"error": "no-model-answer"}
+        status, why = _expect(st)
+        if call.get("arg_modified"):
+            out.append(dict(kind="spec", clause="caller-owned-argument-modified", detail=f"{st['op']} {where} changed the object passed as its second argument: {call['arg_modified']}"))
+        if call.get("mutated_input"):
+            out.append(dict(kind="spec", clause="caller-owned-argument-modified", detail=f"{st['op']} {where} changed the stack / the input file it was given"))
+        if "error" in call:
+            out += _judge_error(st, call["error"], model, where, status, why)
+            if call.get("files_left"):
+                out.append(dict(kind="corr", clause="file-written-before-rejection", detail=f"{where}: {call['files_left']}"))
+            continue
+        r = call.get("returned")
+        want = "numpy.ndarray:" + ("int16" if case["dtype"] == "i16" else "float32")
+        if any(t != want for t in call.get("types", [])):
+            out.append(dict(kind="corr", clause="dtype-changed", detail=f"{where}: returned {call['types']} for a {want} stack"))
+        if r is None:
+            out.append(dict(kind="spec", clause="returns-no-stack", detail=f"{st['op']} {where} returned {call.get('types')}"))
+            continue
+        res = [np.array(r["data"], dtype=np.int64).reshape(r["shape"])]
+        if status == "ok" or (status == "reject" and st["op"] != "flip"):
+            bad = _spec(st, Xin, res)
+            if bad:
+                out.append(dict(kind=bad[0], clause=bad[1], detail=f"{where}: {bad[2]}"))
+        if call.get("file_detail"):
+            out.append(dict(kind="spec", clause="file-holds-the-result", detail=f"{where}, output file = the input path: {call['file_detail']}"))
+        d = _model_diff(st, dict(returned=[dict(shape=[r["shape"][0], r["shape"][1], r["shape"][2]] if case["out"] == "zyx" else r["shape"][::-1],
+                                                data=(res[0] if case["out"] == "zyx" else np.ascontiguousarray(res[0].transpose(2, 1, 0))).ravel().tolist())]), model)
+        if d:
+            out.append(dict(kind="corr", clause="impl-vs-model", detail=f"{where}: {d}"))
+    return out
+
+
 def judge(case, obs, resps):
     out = []
-    if "error" in obs and "ref" not in obs:
-        return [dict(kind="spec", clause="harness-or-impl-raises", detail=obs["error"] + " @" + obs.get("where", ""))]
+    if "error" in obs and "ref" not in obs and "calls" not in obs:
+        # run_impl itself failed outside the per-call handlers: the harness (or a library it uses) raised — never a spec finding (G4)
+        kind = "spec" if obs.get("where") else "corr"
+        return [dict(kind=kind, clause="impl-raises-outside-a-call" if obs.get("where") else "harness-or-library-raised", detail=obs["error"] + " @" + obs.get("where", ""))]
+    if case["op"] == "seq":
+        return _judge_seq(case, obs, resps)
     model = resps[0]
     ref = obs["ref"]
+    status, why = _expect(case)
     if not obs.get("input_file_ok", True):
         out.append(dict(kind="corr", clause="input-file", detail="the MRC input file written for the case does not hold the stack (mrcfile vs harness parser)"))
+    for c in obs["configs"]:
+        if c.get("arg_modified"):
+            out.append(dict(kind="spec", clause="caller-owned-argument-modified", detail=f"{case['op']} in configuration {c['cfg']} changed the object passed as its second argument (the same object is re-used for all calls): {c['arg_modified']}"))
+            break
+    for c in obs["configs"]:
+        if c.get("mutated_input"):
+            out.append(dict(kind="spec", clause="caller-owned-argument-modified", detail=f"{case['op']} in configuration {c['cfg']} changed the stack array / input file it was given"))
+            break
+    foreign = next((c for c in obs["configs"] if str(c.get("error", "")).startswith("foreign:")), None)
+    if foreign is not None and not str(ref.get("error", "")).startswith("foreign:"):
+        out.append(dict(kind="corr", clause="harness-or-library-raised", detail=f"configuration {foreign['cfg']}: {foreign['error'][8:]}"))
     # ---- rejections
     if "error" in ref:
-        if "error" not in model:
-            out.append(dict(kind="spec", clause="raises-on-valid-input", detail=f"{case['op']} raises {ref['error']} in configuration {case['cfg']}"))
-        elif model["error"] != "reject:" + ref["error"]:
-            out.append(dict(kind="corr", clause="error-kind", detail=f"implementation {ref['error']} vs model {model['error']}"))
+        out += _judge_error(case, ref["error"], model, f"in configuration {case['cfg']}", status, why)
+        if ref["error"].startswith("foreign:"):
+            return out
         for c in obs["configs"][1:]:
-            if not c.get("same", True):
+            if not c.get("same", True) and not str(c.get("error", "")).startswith("foreign:"):
                 out.append(dict(kind="spec", clause="same-result-in-every-configuration", detail=f"configuration {c['cfg']} {c.get('detail', '')}, reference {case['cfg']} raises {ref['error']}"))
                 break
         for c in obs["configs"]:
@@ -701,40 +1359,46 @@ def judge(case, obs, resps):
         return out
     # ---- the statement on the reference configuration (normalised to n,y,x)
     inp, oo, wr = case["cfg"]
+    want = "numpy.ndarray:" + ("int16" if case["dtype"] == "i16" else "float32")
+    for c in obs["configs"]:                                 # G3: the type and dtype of what came back, not a coerced copy
+        if any(t != want for t in c.get("types", [])):
+            out.append(dict(kind="spec" if c.get("not_array") else "corr", clause="returns-no-stack" if c.get("not_array") else "dtype-changed",
+                            detail=f"{c['cfg']}: returned {c['types']} for a {want} stack"))
+            break
+    if any(r.get("data") is None or len(r["shape"]) != 3 for r in ref["returned"]):
+        return out
     res = []
     for r in ref["returned"]:
         a = np.array(r["data"], dtype=np.int64).reshape(r["shape"])
         res.append(a if oo == "zyx" else a.transpose(2, 1, 0))
-    bad = _spec(case, res)
-    if bad:
-        out.append(dict(kind="spec", clause=bad[0], detail=f"configuration {case['cfg']}: {bad[1]}"))
-    if case["op"] == "flip" and obs.get("twice_identity") is False:
-        out.append(dict(kind="spec", clause="flip-twice-is-identity", detail=f"flipping along {case['axes']} twice does not give the input back (configuration {case['cfg']})"))
+    if status == "ok" or (status == "reject" and case["op"] != "flip"):
+        # also when the documentation announces a refusal but the call returned: what it returned must still be what the statement says
+        # (e.g. index 0 with 1-based numbering denotes no image: "exactly the other images" is then the whole stack)
+        bad = _spec(case, values(case).reshape(case["n"], case["h"], case["w"]), res)
+        if bad:
+            out.append(dict(kind=bad[0], clause=bad[1], detail=f"configuration {case['cfg']}: {bad[2]}"))
+        if case["op"] == "flip" and obs.get("twice_identity") is False:
+            out.append(dict(kind="spec", clause="flip-twice-is-identity", detail=f"flipping along {case['axes']} twice does not give the input back (configuration {case['cfg']}) {obs.get('twice_error', '')}"))
     for c in obs["configs"]:
         if c.get("file_detail"):
             out.append(dict(kind="spec", clause="file-holds-the-result", detail=f"configuration {c['cfg']}: {c['file_detail']}"))
             break
     for c in obs["configs"][1:]:
-        if not c.get("same", True):
+        if not c.get("same", True) and not str(c.get("error", "")).startswith("foreign:"):
             out.append(dict(kind="spec", clause="same-result-in-every-configuration", detail=f"configuration {c['cfg']} vs {case['cfg']}: {c.get('detail', '')}"))
             break
-    for c in obs["configs"]:
-        if c.get("mutated_input"):
-            out.append(dict(kind="corr", clause="input-array-mutated", detail=str(c["cfg"])))
-            break
-    want = "int16" if case["dtype"] == "i16" else "float32"
-    for c in obs["configs"]:
-        if any(d != want for d in c.get("dtypes", [])):
-            out.append(dict(kind="corr", clause="dtype-changed", detail=f"{c['cfg']}: returned dtype {c['dtypes']} for a {want} stack"))
-            break
     # ---- correspondence with the Lean model (same defs as the theorems)
-    d = _model_diff(case, obs, model)
+    d = _model_diff(case, ref, model)
     if d:
-        out.append(dict(kind="corr", clause="impl-vs-model", detail=f"configuration {case['cfg']}: {d}"))
+        out.append(dict(kind="corr", clause="impl-vs-model" if status != "reject" else "accepts-what-the-documentation-refuses",
+                        detail=f"configuration {case['cfg']}: {d}" + (f" ({why})" if why else "")))
     return out
 
 
 def nontrivial(case, obs):
+    if case["op"] == "seq":
+        calls = obs.get("calls", [])
+        return len(calls) >= 2 and all("returned" in c and c["returned"] for c in calls) and any(c["returned"]["data"] != c["input"]["data"] for c in calls)
     ref = obs.get("ref") or {}
     if "error" in ref or case["h"] == case["w"] or case["n"] < 3:
         return False
@@ -749,33 +1413,60 @@ def nontrivial(case, obs):
 
 
 def stats(case, obs, resps):
-    ref = obs.get("ref") or {}
     n = case["n"]
+    omit = case.get("omit") or []
     d = {"op": case["op"], "dtype": case["dtype"], "n_tilts": "2" if n == 2 else ("3-8" if n <= 8 else ("9-16" if n <= 16 else "17-25")),
          "shape": "h<w" if case["h"] < case["w"] else ("h>w" if case["h"] > case["w"] else "square"),
-         "max_side": "4-9" if max(case["h"], case["w"]) < 10 else ("10-19" if max(case["h"], case["w"]) < 20 else "20-40"),
-         "model_cfg_input": case["cfg"][0], "model_cfg_out": case["cfg"][1], "model_cfg_write": str(case["cfg"][2]),
-         "outcome": ("reject:" + ref["error"]) if "error" in ref else "ok", "impl_calls": len(obs.get("configs", []))}
+         "keywords_omitted(defaults exercised)": "none" if not omit else ("all-default-valued" if len(omit) == 6 else "some")}
+    if case["op"] == "seq":
+        calls = obs.get("calls", [])
+        d.update({"seq_mode": case["mode"], "seq_calls": len(calls), "seq_ops": [s["op"] for s in case["steps"]],
+                  "seq_outcome": ["reject:" + c["error"] if "error" in c else "ok" for c in calls]})
+        if case["mode"] == "shared":
+            d["seq_shared_arg"] = _src_of(case["steps"][0], "idx_src" if case["steps"][0]["op"] == "remove" else "ang_src") if case["steps"][0]["op"] != "flip" else "axes-list"
+        return d
+    ref = obs.get("ref") or {}
+    status, _ = _expect(case)
+    d.update({"max_side": "4-9" if max(case["h"], case["w"]) < 10 else ("10-19" if max(case["h"], case["w"]) < 20 else "20-40"),
+              "model_cfg_input": case["cfg"][0], "model_cfg_out": case["cfg"][1], "model_cfg_write": str(case["cfg"][2]),
+              "outcome": ("reject:" + ref["error"]) if "error" in ref else "ok", "impl_calls": len(obs.get("configs", [])), "domain": status})
     if case["op"] == "remove":
-        d["remove"] = ("1-based" if case["base1"] else "0-based") + ("/all" if len(set(case["idxs"])) == n else "")
+        left = n - len({i for i in case["idxs"]})
+        d["remove"] = ("1-based" if case["base1"] else "0-based") + ("/keyword-omitted" if not _passed(case, "numbered_from_1", bool(case["base1"])) else "") \
+            + ("/all" if left == 0 else "")
+        d["remove_src"] = _src_of(case, "idx_src")
+        d["remove_remaining"] = "0" if left <= 0 else ("1" if left == 1 else ("2-4" if left <= 4 else "5+")) + ("/n>8" if n > 8 else "")
+    if case["op"] == "sort":
+        m = len(case["angles"])
+        d["sort_angles"] = _src_of(case, "ang_src") + ("" if m == n else ("/fewer-angles" if m < n else "/more-angles"))
     if case["op"] == "flip":
-        d["flip_axes"] = "".join(case["axes"]) if isinstance(case["axes"], list) else "str:" + case["axes"]
+        d["flip_axes"] = (case.get("axes_kind") or "") + ":" + ("".join(case["axes"]) if isinstance(case["axes"], list) else case["axes"])
     if case["op"] == "bin":
         d["bin"] = f"b={case['b']}" + ("" if case["h"] % case["b"] == 0 and case["w"] % case["b"] == 0 else "/partial-blocks")
         dev = max_bin_dev(case, obs, resps[0]) if resps else None
         if dev is not None:
-            d["bin_max_dev_vs_exact_mean"] = "0" if dev == 0 else ("<2^-20" if dev < 2 ** -20 else ("<1 (int16 truncation)" if dev < 1 else ">=1"))
+            d["bin_max_dev_vs_exact_mean(float32)"] = "0" if dev == 0 else ("<2^-20" if dev < 2 ** -20 else ">=2^-20")
     if case["op"] == "crop":
         par = lambda full, new: "None" if new is None else ("same-parity" if (full - new) % 2 == 0 else "odd-margin")
         d["crop_w"], d["crop_h"] = par(case["w"], case["new_w"]), par(case["h"], case["new_h"])
+        d["crop_size_type"] = case.get("size_kind", "int")
     return d
 
 
 def sample_view(case):
-    return {k: (v if k != "angles" else [b2f(a) for a in v]) for k, v in case.items()}
+    v = {k: (val if k != "angles" else [b2f(a) for a in val]) for k, val in case.items()}
+    if case["op"] == "seq":
+        v["steps"] = [{k: (val if k != "angles" else [b2f(a) for a in val]) for k, val in s.items()} for s in case["steps"]]
+    return v
 
 
 def classify(case, obs, finding):
+    """C15-K1: a text index file with exactly one entry makes remove_tilts raise TypeError (np.loadtxt returns a 0-d array)"""
+    if finding.get("clause") != "raises-on-valid-input" or "scalar-index" not in finding.get("detail", ""):
+        return None
+    steps = case["steps"] if case["op"] == "seq" else [case]
+    if any(s["op"] == "remove" and _src_of(s, "idx_src") == "txt" and len(s["idxs"]) == 1 for s in steps):
+        return "C15-K1"
     return None
 
 
@@ -809,11 +1500,16 @@ def probes(rng):
 
 
 LEVEL_TEXT = ("Lean 4 theorems about an executable model of the tilt-stack operations (sorting by angle is an ascending permutation, removal keeps exactly "
-              "the other images in order for 1-/0-based indices, even/odd split interleaves back, flips are involutions, the crop is the centred window, "
-              "binning is the block mean, x,y,n / n,y,x / MRC-file input give the same result and the written file holds it) for all stack sizes and all "
-              "voxel values; the model is tied to the source by regenerated anchors (flip axis table, index shift, parity rule, transpose axes and "
-              "conditions, crop/sort/remove/bin expressions) and by an exact differential run of the real functions in all 16 configurations against the model")
+              "the other images in order for 1-/0-based indices and every index source, even/odd split interleaves back, flips are involutions that reverse the "
+              "documented axis, the crop is the centred window, binning is the block mean and its int16 cast a truncation toward zero, x,y,n / n,y,x / MRC-file "
+              "input give the same result and the written file holds it, also through the dtype cast and for each of the real functions) for all stack sizes "
+              "and all voxel values; the model is tied to the source by regenerated anchors (flip axis table, index shift, parity rule, transpose axes and "
+              "conditions, signature defaults, the TiltStack -> write_out -> correct_order wrapper of each function, alpha-normalised dumps of the whole "
+              "bodies of the six functions, the TiltStack methods, indices_load and tlt_load) and by an exact differential run of the real functions in "
+              "all 16 configurations and in multi-call sequences against the model")
 LEVEL_NOTE = ("trusted: Lean kernel; translator anchors; harness MRC parser; numpy indexing and mrcfile I/O are modelled, not verified; binning is proved as "
-              "exact block means over a field, the float32/int16 rounding of the real code is only validated (exact on the generated dyadic inputs)")
+              "exact block means over a field, the int16 cast is modelled as truncation toward zero (proved, compared exactly), the float32 rounding of the real "
+              "code is only validated (exact on the generated dyadic inputs); angle lists of another length than the stack, tuple axes and empty index files are "
+              "outside the statement and only compared with the model; open finding C15-K1 (one-entry text index file raises TypeError)")
 TECHNIQUE = "Lean 4 proof (list induction, permutation/sortedness of merge sort, index algebra of transposition and reshape) + regenerated anchors + exact differential correspondence"
 DESIGN_REF = "DESIGN.md section 4, C15"
